@@ -1,7 +1,15 @@
 (* C05: proofs about the API machines of ApiModel.v.
    Part 1 (generic): from the contract AContract (an invariant closed under the public operations on which nothing
-   raises, with a measure for tighten_bounds()) follow, for EVERY history of calls: no call raises, and the completion
-   idiom followed by the serialiser's reading of the own cost yields the contract's value. *)
+           raises, with a measure for tighten_bounds()) follow, for EVERY history of calls: no call raises, and the
+           completion idiom followed by the serialiser's reading of the own cost yields the contract's value.
+   Part 2: the universal machine's run of a history of calls on the edit is that generic run; class lemmas for
+           ConstantCostEdit, KeyValuePairEdit (sum), FixedLengthSequenceEdit (repeat_until_tightened), stated over any
+           predicate PC of sub-edits that is closed under the operations.
+   Part 3: EditDistance / StringEdit over such sub-edits, for both settings of the status flag: the partial-fill
+           invariants of C04 (MachineProofs) reused as state predicates, the three resting states (matrix being built,
+           complete but not finalised, finalised and freed), every operation in every state.
+   Part 6 (placed before 4): the structural invariant SI and its closure under calls addressed to listed sub-edits.
+   Part 4: closing induction over trees (initA).  Part 5: the value is the cost of the big-step script. *)
 From Coq Require Import ZArith List Bool Lia.
 Require Import GT.PyBase GT.Data GT.EdTypes GT.EdEngine GT.LevModel GTgen.EdGen GT.EdParams GT.ScriptSpec GT.ScriptModel
                GT.EdEngineProofs GT.MachineSpec GT.MachineModel GT.MachineProofs GT.ApiSpec GT.ApiModel.
@@ -233,13 +241,47 @@ Proof.
   split; [exists Inv; split; assumption|exact Mu].
 Qed.
 
+Lemma ac_step : forall M x v, AContract M x v -> astep_ok M (fun t => AContract M t v) v x.
+Proof.
+  intros M x v H. destruct (ac_bnd _ _ _ H) as (B1 & B2 & B3 & B4). destruct (ac_tig _ _ _ H) as (T1 & T2 & T3).
+  destruct (ac_cmp _ _ _ H) as (C1 & C2). pose proof (ac_err _ _ _ H) as E.
+  destruct H as (Inv & H0 & Hinv). destruct (inv_eds M Inv v Hinv x H0) as (E1 & E2).
+  unfold astep_ok. cbv zeta. split; [exact E|]. split; [split; [exact B1|split; [exact B2|split; [exact B3|exact B4]]]|].
+  split; [split; [exact T1|split; [exact T2|exact T3]]|].
+  split; [split; assumption|]. split; [exists Inv; split; assumption|exact E2].
+Qed.
+
+(* the same consequences from any predicate that is closed under the operations *)
+Section PStep.
+  Variable M : amachine.
+  Variable PC : ASt M -> Z -> Prop.
+  Hypothesis HPC : forall x v, PC x v -> astep_ok M (fun t => PC t v) v x.
+
+  Lemma p_ac : forall x v, PC x v -> AContract M x v.
+  Proof. intros x v H. exists (fun t => PC t v). split; [exact H|]. intros t Ht. apply HPC. exact Ht. Qed.
+  Lemma p_err : forall x v, PC x v -> a_err M x = false.
+  Proof. intros x v H. apply (ac_err M x v). apply p_ac. exact H. Qed.
+  Lemma p_bnd : forall x v, PC x v ->
+    PC (fst (a_bnd M x)) v /\ (a_mu M (fst (a_bnd M x)) <= a_mu M x)%nat /\
+    fst (snd (a_bnd M x)) <= v <= snd (snd (a_bnd M x)) /\
+    a_bnd M (fst (a_bnd M x)) = (fst (a_bnd M x), snd (a_bnd M x)).
+  Proof. intros x v H. destruct (HPC x v H) as (_ & B & _). cbv zeta in B. exact B. Qed.
+  Lemma p_tig : forall x v, PC x v ->
+    PC (fst (a_tig M x)) v /\ (snd (a_tig M x) = true -> (a_mu M (fst (a_tig M x)) < a_mu M x)%nat) /\
+    (snd (a_tig M x) = false -> (a_mu M (fst (a_tig M x)) <= a_mu M x)%nat /\
+                                a_bnd M (fst (a_tig M x)) = (fst (a_tig M x), (v, v)) /\ snd (a_bnd M x) = (v, v)).
+  Proof. intros x v H. destruct (HPC x v H) as (_ & _ & T & _). cbv zeta in T. exact T. Qed.
+  Lemma p_cmp : forall x v, PC x v -> PC (fst (a_cmp M x)) v /\ (a_mu M (fst (a_cmp M x)) <= a_mu M x)%nat.
+  Proof. intros x v H. destruct (HPC x v H) as (_ & _ & _ & Cm & _). cbv zeta in Cm. exact Cm. Qed.
+End PStep.
+
 (* ---------------------------------------------------------------- unfolding the universal machine *)
-Lemma bnd_const : forall q d c t, k_bnd (opsA q (S d)) (AConst c t) = (AConst c t, (c, c)).
-Proof. reflexivity. Qed.
-Lemma tig_const : forall q d c t, k_tig (opsA q (S d)) (AConst c t) = (AConst c t, false).
-Proof. reflexivity. Qed.
-Lemma cmp_const : forall q d c t, k_cmp (opsA q (S d)) (AConst c t) = (AConst c t, true).
-Proof. reflexivity. Qed.
+Lemma bnd_const : forall q d c t, k_bnd (opsA q d) (AConst c t) = (AConst c t, (c, c)).
+Proof. intros q [|d]; reflexivity. Qed.
+Lemma tig_const : forall q d c t, k_tig (opsA q d) (AConst c t) = (AConst c t, false).
+Proof. intros q [|d]; reflexivity. Qed.
+Lemma cmp_const : forall q d c t, k_cmp (opsA q d) (AConst c t) = (AConst c t, true).
+Proof. intros q [|d]; reflexivity. Qed.
 Lemma bnd_sum : forall q d l, k_bnd (opsA q (S d)) (ASum l) = (ASum (fst (sum_bnd (opsA q d) l)), snd (sum_bnd (opsA q d) l)).
 Proof. reflexivity. Qed.
 Lemma tig_sum : forall q d l,
@@ -249,15 +291,26 @@ Lemma cmp_sum : forall q d l,
   k_cmp (opsA q (S d)) (ASum l) = (fst (k_bnd (opsA q (S d)) (ASum l)), zdefb (snd (k_bnd (opsA q (S d)) (ASum l)))).
 Proof. reflexivity. Qed.
 
+Lemma nat_sum_cons : forall a l, nat_sum (a :: l) = (a + nat_sum l)%nat.
+Proof. reflexivity. Qed.
+Lemma zsum_cons : forall a l, zsum (a :: l) = a + zsum l.
+Proof. reflexivity. Qed.
+
+Lemma amax_ge : forall l x, In x l -> (x <= ApiModel.nat_max_list l)%nat.
+Proof.
+  induction l as [|y l IH]; intros x H; [destruct H|]. cbn [ApiModel.nat_max_list]. destruct H as [->|H]; [lia|].
+  specialize (IH x H). lia.
+Qed.
+
 Definition Good (q : bool) (s : ast) (v : Z) : Prop := forall d, (aheight s <= d)%nat -> AContract (AM q d) s v.
 
 (* ---------------------------------------------------------------- ConstantCostEdit *)
 Theorem good_const : forall q c t, Good q (AConst c t) c.
 Proof.
-  intros q c t d Hd. cbn [aheight] in Hd. destruct d as [|d]; [lia|].
+  intros q c t d _.
   exists (fun s => s = AConst c t). split; [reflexivity|]. intros s ->.
   unfold astep_ok. cbn [AM a_bnd a_tig a_cmp a_eds a_err a_mu]. rewrite bnd_const, tig_const, cmp_const.
-  cbn [fst snd errA muA listing]. repeat split; intros; try reflexivity; try lia; try discriminate.
+  cbn [fst snd errA muA listing]. repeat split; intros; try reflexivity; try lia; try discriminate; apply bnd_const.
 Qed.
 
 (* ---------------------------------------------------------------- lists of sub-edits under a contract *)
@@ -266,6 +319,8 @@ Section Lists.
   Variable d : nat.
   Notation CM := (AM q d).
   Notation C := (opsA q d).
+  Variable PC : ast -> Z -> Prop.
+  Hypothesis HPC : forall x v, PC x v -> astep_ok (AM q d) (fun t => PC t v) v x.
 
   Definition pts (vs : list Z) : list zr := map (fun v => (v, v)) vs.
   Lemma zr_sum_pts : forall vs, zr_sum (pts vs) = (zsum vs, zsum vs).
@@ -273,25 +328,27 @@ Section Lists.
     unfold pts, zr_sum. induction vs as [|v vs IH]; [reflexivity|]. cbn [map fold_right zsum]. rewrite IH. reflexivity.
   Qed.
 
-  Lemma f2_err : forall l vs, Forall2 (AContract CM) l vs -> existsb errA l = false.
+  Lemma f2_err : forall l vs, Forall2 (PC) l vs -> existsb errA l = false.
   Proof.
     induction 1 as [|x v l vs Hx _ IH]; [reflexivity|]. cbn [existsb]. rewrite IH.
-    pose proof (ac_err _ _ _ Hx) as E. cbn [AM a_err] in E. rewrite E. reflexivity.
+    pose proof (p_err CM PC HPC _ _ Hx) as E. cbn [AM ASt a_err] in E. rewrite E. reflexivity.
   Qed.
 
-  Lemma thread_bnd_spec : forall l vs, Forall2 (AContract CM) l vs ->
-    Forall2 (AContract CM) (fst (thread (k_bnd C) l)) vs /\
+  Lemma thread_bnd_spec : forall l vs, Forall2 (PC) l vs ->
+    Forall2 (PC) (fst (thread (k_bnd C) l)) vs /\
     (nat_sum (map muA (fst (thread (k_bnd C) l))) <= nat_sum (map muA l))%nat /\
     fst (zr_sum (snd (thread (k_bnd C) l))) <= zsum vs <= snd (zr_sum (snd (thread (k_bnd C) l))) /\
     thread (k_bnd C) (fst (thread (k_bnd C) l)) = thread (k_bnd C) l.
   Proof.
     induction 1 as [|x v l vs Hx _ IH].
-    - cbn. repeat split; try constructor; lia.
-    - destruct IH as (I1 & I2 & I3 & I4). destruct (ac_bnd _ _ _ Hx) as (B1 & B2 & B3 & B4).
-      cbn [AM a_bnd a_mu] in B2, B3, B4. cbn [thread]. cbv zeta. cbn [fst snd map nat_sum fold_right zr_sum zsum].
+    - cbn [thread fst snd map nat_sum fold_right]. unfold zr_sum, zsum. cbn [fold_right fst snd].
+      split; [constructor|]. split; [lia|]. split; [lia|reflexivity].
+    - destruct IH as (I1 & I2 & I3 & I4). destruct (p_bnd CM PC HPC _ _ Hx) as (B1 & B2 & B3 & B4).
+      cbn [AM ASt a_bnd a_mu] in B2, B3, B4. cbn [thread]. cbv zeta. cbn [fst snd map].
+      rewrite !nat_sum_cons, zr_sum_cons, zsum_cons.
       split; [constructor; assumption|]. split; [lia|]. split.
-      + unfold zr_add. cbn [fst snd]. fold (zr_sum (snd (thread (k_bnd C) l))). fold (zsum vs). lia.
-      + rewrite B4. cbn [fst snd]. rewrite I4. destruct (thread (k_bnd C) l). reflexivity.
+      + unfold zr_add. cbn [fst snd]. lia.
+      + cbn [thread]. cbv zeta. rewrite B4. cbn [fst snd]. rewrite I4. reflexivity.
   Qed.
 
   Lemma thread_fixed : forall l rs, Forall2 (fun x r => k_bnd C x = (x, r)) l rs -> thread (k_bnd C) l = (l, rs).
@@ -299,8 +356,8 @@ Section Lists.
     induction 1 as [|x r l rs Hx _ IH]; [reflexivity|]. cbn [thread]. cbv zeta. rewrite Hx, IH. reflexivity.
   Qed.
 
-  Lemma first_true_spec : forall l vs, Forall2 (AContract CM) l vs ->
-    Forall2 (AContract CM) (fst (first_true (k_tig C) l)) vs /\
+  Lemma first_true_spec : forall l vs, Forall2 (PC) l vs ->
+    Forall2 (PC) (fst (first_true (k_tig C) l)) vs /\
     (snd (first_true (k_tig C) l) = true ->
      (nat_sum (map muA (fst (first_true (k_tig C) l))) < nat_sum (map muA l))%nat) /\
     (snd (first_true (k_tig C) l) = false ->
@@ -310,9 +367,9 @@ Section Lists.
   Proof.
     induction 1 as [|x v l vs Hx Hl IH].
     - cbn. repeat split; try constructor; intros; try discriminate; lia.
-    - destruct IH as (I1 & I2 & I3). destruct (ac_tig _ _ _ Hx) as (T1 & T2 & T3).
-      cbn [AM a_tig a_bnd a_mu] in T2, T3. cbn [first_true]. cbv zeta.
-      destruct (snd (k_tig C x)) eqn:E; cbn [fst snd map nat_sum fold_right].
+    - destruct IH as (I1 & I2 & I3). destruct (p_tig CM PC HPC _ _ Hx) as (T1 & T2 & T3).
+      cbn [AM ASt a_tig a_bnd a_mu] in T2, T3. cbn [first_true]. cbv zeta.
+      destruct (snd (k_tig C x)) eqn:E; cbn [fst snd map]; rewrite !nat_sum_cons.
       + split; [constructor; assumption|]. split; [intros _; specialize (T2 eq_refl); lia|discriminate].
       + destruct (T3 eq_refl) as (M1 & B1 & B0).
         split; [constructor; assumption|]. split.
@@ -322,33 +379,34 @@ Section Lists.
           -- cbn [thread]. cbv zeta. cbn [snd]. rewrite B0, J3. reflexivity.
   Qed.
 
-  Lemma thread_all_spec : forall l vs, Forall2 (AContract CM) l vs ->
-    Forall2 (AContract CM) (fst (thread_all (k_cmp C) l)) vs /\
+  Lemma thread_all_spec : forall l vs, Forall2 (PC) l vs ->
+    Forall2 (PC) (fst (thread_all (k_cmp C) l)) vs /\
     (nat_sum (map muA (fst (thread_all (k_cmp C) l))) <= nat_sum (map muA l))%nat.
   Proof.
     induction 1 as [|x v l vs Hx Hl IH].
     - cbn. split; [constructor|lia].
-    - destruct IH as (I1 & I2). destruct (ac_cmp _ _ _ Hx) as (C1 & C2). cbn [AM a_cmp a_mu] in C2.
-      cbn [thread_all]. cbv zeta. destruct (snd (k_cmp C x)); cbn [fst snd map nat_sum fold_right].
+    - destruct IH as (I1 & I2). destruct (p_cmp CM PC HPC _ _ Hx) as (C1 & C2). cbn [AM ASt a_cmp a_mu] in C2.
+      cbn [thread_all]. cbv zeta. destruct (snd (k_cmp C x)); cbn [fst snd map]; rewrite !nat_sum_cons.
       + split; [constructor; assumption|lia].
       + split; [constructor; assumption|lia].
   Qed.
 End Lists.
 
 (* ---------------------------------------------------------------- KeyValuePairEdit (component-wise sum) *)
-Lemma sum_step : forall q d vs l, Forall2 (AContract (AM q d)) l vs ->
-  astep_ok (AM q (S d)) (fun t => exists l', t = ASum l' /\ Forall2 (AContract (AM q d)) l' vs) (zsum vs) (ASum l).
+Lemma sum_step : forall q d (PC : ast -> Z -> Prop), (forall x v, PC x v -> astep_ok (AM q d) (fun t => PC t v) v x) ->
+  forall vs l, Forall2 PC l vs ->
+  astep_ok (AM q (S d)) (fun t => exists l', t = ASum l' /\ Forall2 PC l' vs) (zsum vs) (ASum l).
 Proof.
-  intros q d vs l H. unfold astep_ok. cbn [AM a_bnd a_tig a_cmp a_eds a_err a_mu].
-  destruct (thread_bnd_spec q d l vs H) as (B1 & B2 & B3 & B4).
+  intros q d PC HPC vs l H. unfold astep_ok. cbn [AM a_bnd a_tig a_cmp a_eds a_err a_mu].
+  destruct (thread_bnd_spec q d PC HPC l vs H) as (B1 & B2 & B3 & B4).
   assert (Hb : let t' := fst (k_bnd (opsA q (S d)) (ASum l)) in let r := snd (k_bnd (opsA q (S d)) (ASum l)) in
-               (exists l', t' = ASum l' /\ Forall2 (AContract (AM q d)) l' vs) /\ (muA t' <= muA (ASum l))%nat /\
+               (exists l', t' = ASum l' /\ Forall2 PC l' vs) /\ (muA t' <= muA (ASum l))%nat /\
                fst r <= zsum vs <= snd r /\ k_bnd (opsA q (S d)) t' = (t', r)).
   { rewrite bnd_sum. unfold sum_bnd. cbv zeta. cbn [fst snd muA].
     split; [eexists; split; [reflexivity|exact B1]|]. split; [exact B2|]. split; [exact B3|].
     rewrite bnd_sum. unfold sum_bnd. cbv zeta. rewrite B4. reflexivity. }
-  split; [cbn [errA]; apply (f2_err q d l vs H)|]. split; [exact Hb|]. split; [|split].
-  - rewrite tig_sum. cbn [fst snd muA]. destruct (first_true_spec q d l vs H) as (T1 & T2 & T3).
+  split; [cbn [errA]; apply (f2_err q d PC HPC l vs H)|]. split; [exact Hb|]. split; [|split].
+  - rewrite tig_sum. cbn [fst snd muA]. destruct (first_true_spec q d PC HPC l vs H) as (T1 & T2 & T3).
     split; [eexists; split; [reflexivity|exact T1]|]. split; [exact T2|].
     intros E. destruct (T3 E) as (J1 & J2 & J3). split; [exact J1|]. split.
     + rewrite bnd_sum. unfold sum_bnd. cbv zeta. rewrite J2. cbn [fst snd]. rewrite zr_sum_pts. reflexivity.
@@ -362,10 +420,1753 @@ Proof.
   intros q l vs H d Hd. cbn [aheight] in Hd. destruct d as [|d]; [lia|].
   assert (Hk : Forall2 (AContract (AM q d)) l vs).
   { assert (Hh : forall x, In x l -> (aheight x <= d)%nat).
-    { intros x Hx. pose proof (nat_max_list_ge (map aheight l) (aheight x) (in_map aheight l x Hx)). lia. }
+    { intros x Hx. pose proof (amax_ge (map aheight l) (aheight x) (in_map aheight l x Hx)). lia. }
     clear Hd. induction H as [|x v l vs Hx _ IH]; constructor.
     - apply Hx. apply Hh. left. reflexivity.
     - apply IH. intros y Hy. apply Hh. right. exact Hy. }
   exists (fun t => exists l', t = ASum l' /\ Forall2 (AContract (AM q d)) l' vs).
-  split; [eexists; split; [reflexivity|exact Hk]|]. intros t (l' & -> & Hl'). apply sum_step. exact Hl'.
+  split; [eexists; split; [reflexivity|exact Hk]|]. intros t (l' & -> & Hl').
+  apply (sum_step q d (AContract (AM q d)) (ac_step (AM q d))). exact Hl'.
 Qed.
+
+(* ---------------------------------------------------------------- FixedLengthSequenceEdit (repeat_until_tightened) *)
+Definition fb (q : bool) (d : nat) (rems inss : list Z) (l : list ast) : list ast * zr :=
+  let sb := sum_bnd (opsA q d) l in
+  let r := snd sb in
+  (fst sb, (fst r + zsum rems + zsum inss, snd r + zsum rems + zsum inss)).
+
+Lemma mu_ops : forall q d, k_mu (opsA q d) = muA.
+Proof. intros q [|d]; reflexivity. Qed.
+
+Lemma bnd_fixed : forall q d l rems inss err,
+  k_bnd (opsA q (S d)) (AFixed l rems inss err) = (AFixed (fst (fb q d rems inss l)) rems inss err, snd (fb q d rems inss l)).
+Proof. reflexivity. Qed.
+Lemma tig_fixed : forall q d l rems inss err,
+  k_tig (opsA q (S d)) (AFixed l rems inss err) =
+  (AFixed (fst (fst (arut (fb q d rems inss) (fun l => fst (first_true (k_tig (opsA q d)) l))
+                          (S (nat_sum (map (k_mu (opsA q d)) l))) l))) rems inss
+          (err || snd (arut (fb q d rems inss) (fun l => fst (first_true (k_tig (opsA q d)) l))
+                            (S (nat_sum (map (k_mu (opsA q d)) l))) l)),
+   snd (fst (arut (fb q d rems inss) (fun l => fst (first_true (k_tig (opsA q d)) l))
+                  (S (nat_sum (map (k_mu (opsA q d)) l))) l))).
+Proof. reflexivity. Qed.
+Lemma cmp_fixed : forall q d l rems inss err,
+  k_cmp (opsA q (S d)) (AFixed l rems inss err) =
+  (AFixed (fst (thread_all (k_cmp (opsA q d)) l)) rems inss err, snd (thread_all (k_cmp (opsA q d)) l)).
+Proof. reflexivity. Qed.
+
+Section FixedC.
+  Variables (q : bool) (d : nat) (rems inss : list Z) (vs : list Z).
+  Notation CM := (AM q d).
+  Notation C := (opsA q d).
+  Variable PC : ast -> Z -> Prop.
+  Hypothesis HPC : forall x v, PC x v -> astep_ok (AM q d) (fun t => PC t v) v x.
+  Let V := zsum vs + zsum rems + zsum inss.
+  Let B := fb q d rems inss.
+  Let f := fun l : list ast => fst (first_true (k_tig C) l).
+
+  Lemma fb_spec : forall l, Forall2 (PC) l vs ->
+    Forall2 (PC) (fst (B l)) vs /\ (nat_sum (map muA (fst (B l))) <= nat_sum (map muA l))%nat /\
+    fst (snd (B l)) <= V <= snd (snd (B l)) /\ B (fst (B l)) = B l.
+  Proof.
+    intros l H. destruct (thread_bnd_spec q d PC HPC l vs H) as (B1 & B2 & B3 & B4).
+    unfold B, fb, sum_bnd. cbv zeta. cbn [fst snd]. split; [exact B1|]. split; [exact B2|]. split; [unfold V; lia|].
+    rewrite B4. reflexivity.
+  Qed.
+
+  Lemma point_of_sound : forall r : zr, fst r <= V <= snd r -> zdefb r = true -> r = (V, V).
+  Proof.
+    intros [lo hi] S D. unfold zdefb in D. cbn [fst snd] in *. apply Z.eqb_eq in D. f_equal; lia.
+  Qed.
+
+  (* a state whose bounds have just been read and are not a single value: some sub-edit can still be tightened *)
+  Lemma stable_first_true : forall l, Forall2 (PC) l vs -> B l = (l, snd (B l)) -> zdefb (snd (B l)) = false ->
+    snd (first_true (k_tig C) l) = true.
+  Proof.
+    intros l H St ND. destruct (first_true_spec q d PC HPC l vs H) as (_ & _ & T3).
+    destruct (snd (first_true (k_tig C) l)) eqn:E; [reflexivity|]. exfalso.
+    destruct (T3 eq_refl) as (_ & _ & J3).
+    unfold B, fb, sum_bnd in ND. cbv zeta in ND. cbn [fst snd] in ND. rewrite J3, zr_sum_pts in ND.
+    unfold zdefb in ND. cbn [fst snd] in ND. rewrite Z.eqb_refl in ND. discriminate.
+  Qed.
+
+  Lemma arut_loop_spec : forall fuel start l, Forall2 (PC) l vs ->
+    B l = (l, snd (B l)) -> zdefb (snd (B l)) = false -> fst start <= V <= snd start ->
+    (nat_sum (map muA l) < fuel)%nat ->
+    Forall2 (PC) (fst (fst (arut_loop B f fuel start l))) vs /\
+    snd (fst (arut_loop B f fuel start l)) = true /\ snd (arut_loop B f fuel start l) = false /\
+    (nat_sum (map muA (fst (fst (arut_loop B f fuel start l)))) < nat_sum (map muA l))%nat /\
+    B (fst (fst (arut_loop B f fuel start l))) =
+    (fst (fst (arut_loop B f fuel start l)), snd (B (fst (fst (arut_loop B f fuel start l))))).
+  Proof.
+    induction fuel as [|fuel IH]; intros start l H St ND Ss Hf; [lia|].
+    cbn [arut_loop]. cbv zeta.
+    pose proof (stable_first_true l H St ND) as Ft.
+    destruct (first_true_spec q d PC HPC l vs H) as (T1 & T2 & _). specialize (T2 Ft). fold (f l) in T1, T2.
+    destruct (fb_spec (f l) T1) as (F1 & F2 & F3 & F4). fold B in F1, F2, F3, F4.
+    assert (St1 : B (fst (B (f l))) = (fst (B (f l)), snd (B (fst (B (f l)))))).
+    { rewrite F4. destruct (B (f l)); reflexivity. }
+    assert (Snd1 : snd (B (fst (B (f l)))) = snd (B (f l))) by (rewrite F4; reflexivity).
+    destruct (widened (snd (B (f l))) start) eqn:W.
+    - (* widened: cannot be a single value *)
+      assert (ND1 : zdefb (snd (B (f l))) = false).
+      { destruct (zdefb (snd (B (f l)))) eqn:D; [|reflexivity]. rewrite (point_of_sound _ F3 D) in W.
+        unfold widened in W. cbn [fst snd] in W. apply orb_true_iff in W. destruct W as [W|W]; apply Z.ltb_lt in W; lia. }
+      destruct (IH start (fst (B (f l))) F1 St1 ltac:(rewrite Snd1; exact ND1) Ss ltac:(lia)) as (R1 & R2 & R3 & R4 & R5).
+      repeat split; try assumption. lia.
+    - destruct (zdefb (snd (B (f l))) || tighter (snd (B (f l))) start) eqn:G.
+      + cbn [fst snd]. repeat split; try assumption; try lia. 
+      + apply orb_false_iff in G. destruct G as [ND1 _].
+        destruct (IH start (fst (B (f l))) F1 St1 ltac:(rewrite Snd1; exact ND1) Ss ltac:(lia)) as (R1 & R2 & R3 & R4 & R5).
+        repeat split; try assumption. lia.
+  Qed.
+
+  Lemma fixed_step : forall l, Forall2 (PC) l vs ->
+    astep_ok (AM q (S d)) (fun t => exists l', t = AFixed l' rems inss false /\ Forall2 (PC) l' vs) V
+             (AFixed l rems inss false).
+  Proof.
+    intros l H. unfold astep_ok. cbn [AM ASt a_bnd a_tig a_cmp a_eds a_err a_mu].
+    destruct (fb_spec l H) as (B1 & B2 & B3 & B4).
+    split; [cbn [errA orb]; apply (f2_err q d PC HPC l vs H)|]. split; [|split; [|split]].
+    - rewrite bnd_fixed. fold B. cbn [fst snd muA].
+      split; [eexists; split; [reflexivity|exact B1]|]. split; [exact B2|]. split; [exact B3|].
+      rewrite bnd_fixed. fold B. rewrite B4. reflexivity.
+    - rewrite tig_fixed. fold B. fold f. rewrite mu_ops. unfold arut. cbv zeta.
+      destruct (zdefb (snd (B l))) eqn:D.
+      + cbn [fst snd orb muA]. split; [eexists; split; [reflexivity|exact B1]|]. split; [discriminate|].
+        intros _. split; [exact B2|]. rewrite !bnd_fixed. fold B. rewrite B4. cbn [fst snd].
+        rewrite (point_of_sound _ B3 D). split; reflexivity.
+      + assert (St : B (fst (B l)) = (fst (B l), snd (B (fst (B l))))) by (rewrite B4; destruct (B l); reflexivity).
+        assert (ND : zdefb (snd (B (fst (B l)))) = false) by (rewrite B4; exact D).
+        destruct (arut_loop_spec (S (nat_sum (map muA l))) (snd (B l)) (fst (B l)) B1 St ND B3 ltac:(lia))
+          as (R1 & R2 & R3 & R4 & _).
+        rewrite R3. cbn [fst snd orb muA]. split; [eexists; split; [reflexivity|exact R1]|].
+        split; [intros _; lia|]. rewrite R2. discriminate.
+    - rewrite cmp_fixed. cbn [fst snd muA]. destruct (thread_all_spec q d PC HPC l vs H) as (A1 & A2).
+      split; [eexists; split; [reflexivity|exact A1]|exact A2].
+    - cbn [listing fst]. split; [eexists; split; [reflexivity|exact H]|lia].
+  Qed.
+End FixedC.
+
+Theorem good_fixed : forall q l vs rems inss, Forall2 (Good q) l vs ->
+  Good q (AFixed l rems inss false) (zsum vs + zsum rems + zsum inss).
+Proof.
+  intros q l vs rems inss H d Hd. cbn [aheight] in Hd. destruct d as [|d]; [lia|].
+  assert (Hk : Forall2 (AContract (AM q d)) l vs).
+  { assert (Hh : forall x, In x l -> (aheight x <= d)%nat).
+    { intros x Hx. pose proof (amax_ge (map aheight l) (aheight x) (in_map aheight l x Hx)). lia. }
+    clear Hd. induction H as [|x v l vs Hx _ IH]; constructor.
+    - apply Hx. apply Hh. left. reflexivity.
+    - apply IH. intros y Hy. apply Hh. right. exact Hy. }
+  exists (fun t => exists l', t = AFixed l' rems inss false /\ Forall2 (AContract (AM q d)) l' vs).
+  split; [eexists; split; [reflexivity|exact Hk]|]. intros t (l' & -> & Hl').
+  apply (fixed_step q d rems inss vs (AContract (AM q d)) (ac_step (AM q d))). exact Hl'.
+Qed.
+
+(* ================================================================ Part 3: EditDistance over sub-edits under a contract
+   The partial-fill invariants of C04 (MachineProofs.base / PInv / AInv: the cost cells of the processed diagonals
+   are those of the final matrix EdEngine.matrix over the children's final values) are reused as state predicates;
+   they are stated over a `machine` of children, which is instantiated by a ghost machine whose bounds are the
+   child's final value (fvA: run the child to completion and read its cost).  The child contract proper
+   (AContract) is carried separately (KI). *)
+Require Import GT.EdFacts.
+
+Definition fvA (q : bool) (d : nat) (x : ast) : Z :=
+  match final_cost_of q d x with Some c => c | None => 0 end.
+
+Lemma fvA_contract : forall q d x v, AContract (AM q d) x v -> fvA q d x = v.
+Proof.
+  intros q d x v (Inv & H0 & Hinv). unfold fvA, final_cost_of. cbv zeta. rewrite tighten_def_generic.
+  destruct (g_tighten_def_spec (AM q d) Inv v Hinv (S (muA x)) x H0 ltac:(cbn [AM a_mu]; lia)) as (I1 & B1).
+  cbn [AM a_bnd] in B1. rewrite B1. cbn [fst snd]. pose proof (inv_err (AM q d) Inv v Hinv _ I1) as E.
+  cbn [AM a_err] in E. rewrite E. unfold zdefb. cbn [fst snd]. rewrite Z.eqb_refl. reflexivity.
+Qed.
+
+Definition TM (q : bool) (d : nat) : machine :=
+  {| St := ast; bnd := fun x => (fvA q d x, fvA q d x); tig := fun x => (x, false) |}.
+
+Lemma tm_contract : forall q d x v, fvA q d x = v -> ContractV false (TM q d) x v.
+Proof.
+  intros q d x v E. exists (fun t => t = x). split; [reflexivity|]. intros t ->. unfold step_ok. cbn [TM bnd tig fst snd].
+  rewrite E. split; [reflexivity|]. split; [lia|]. split; [apply contains_refl|]. split; [discriminate|].
+  intros _. split; [reflexivity|discriminate].
+Qed.
+
+Lemma lastpos_tm : forall q d rc ic kids, lastpos (TM q d) rc ic kids.
+Proof. intros q d rc ic kids _ _ x _ ND. exfalso. apply ND. reflexivity. Qed.
+
+(* ---------------------------------------------------------------- loops over one child *)
+Section KidLoops.
+  Variables (q : bool) (d : nat).
+  Notation CM := (AM q d).
+  Notation C := (opsA q d).
+  Variable PC : ast -> Z -> Prop.
+  Hypothesis HPC : forall x v, PC x v -> astep_ok (AM q d) (fun t => PC t v) v x.
+
+  Lemma kid_run_spec : forall ft fuel x v, PC x v -> (muA x < fuel)%nat ->
+    exists x1, kid_run C ft fuel x = Some x1 /\ PC x1 v /\ k_bnd C x1 = (x1, (v, v)) /\ (muA x1 <= muA x)%nat.
+  Proof.
+    intros ft. induction fuel as [|fuel IH]; intros x v H Hf; [lia|]. cbn [kid_run]. cbv zeta.
+    destruct (p_tig CM PC HPC _ _ H) as (T1 & T2 & T3). cbn [AM ASt a_tig a_bnd a_mu] in T2, T3.
+    destruct (snd (k_tig C x)) eqn:E.
+    - specialize (T2 eq_refl).
+      destruct ft.
+      + destruct (p_bnd CM PC HPC _ _ T1) as (B1 & B2 & _). cbn [AM ASt a_bnd a_mu a_tig] in B1, B2.
+        destruct (IH _ v B1 ltac:(lia)) as (x1 & E1 & A1 & A2 & A3). exists x1. repeat split; try assumption. lia.
+      + destruct (IH _ v T1 ltac:(cbn [AM ASt a_tig]; lia)) as (x1 & E1 & A1 & A2 & A3).
+        exists x1. repeat split; try assumption. cbn [AM ASt a_tig] in A3. lia.
+    - destruct (T3 eq_refl) as (M1 & B1 & _). exists (fst (k_tig C x)). repeat split; try assumption.
+  Qed.
+
+  Lemma kid_run_def_spec : forall fuel x v, PC x v -> (muA x < fuel)%nat ->
+    exists x1, kid_run_def C fuel x = Some x1 /\ PC x1 v /\ k_bnd C x1 = (x1, (v, v)) /\ (muA x1 <= muA x)%nat.
+  Proof.
+    induction fuel as [|fuel IH]; intros x v H Hf; [lia|]. cbn [kid_run_def]. cbv zeta.
+    destruct (p_bnd CM PC HPC _ _ H) as (B1 & B2 & B3 & B4). cbn [AM ASt a_bnd a_mu] in B1, B2, B3, B4.
+    destruct (zdefb (snd (k_bnd C x))) eqn:D.
+    - exists (fst (k_bnd C x)). repeat split; try assumption. rewrite B4. f_equal.
+      destruct (snd (k_bnd C x)) as [lo hi]. unfold zdefb in D. cbn [fst snd] in *. apply Z.eqb_eq in D. f_equal; lia.
+    - destruct (p_tig CM PC HPC _ _ B1) as (T1 & T2 & T3). cbn [AM ASt a_tig a_bnd a_mu] in T1, T2, T3.
+      destruct (snd (k_tig C (fst (k_bnd C x)))) eqn:E.
+      + specialize (T2 eq_refl). destruct (IH _ v T1 ltac:(lia)) as (x1 & E1 & A1 & A2 & A3).
+        exists x1. repeat split; try assumption. lia.
+      + destruct (T3 eq_refl) as (M1 & B5 & _). exists (fst (k_tig C (fst (k_bnd C x)))). repeat split; try assumption. lia.
+  Qed.
+End KidLoops.
+
+(* ---------------------------------------------------------------- sums over the matrix of children *)
+Definition mu2 (kids : list (list ast)) : nat := nat_sum (map (fun row => nat_sum (map muA row)) kids).
+
+Lemma nat_sum_set_nth : forall (f : ast -> nat) l i x y, nth_error l i = Some x ->
+  (nat_sum (map f (set_nth i y l)) + f x = nat_sum (map f l) + f y)%nat.
+Proof.
+  intros f. induction l as [|z l IH]; intros [|i] x y H; cbn [nth_error] in H; try discriminate.
+  - injection H as ->. cbn [set_nth map]. rewrite !nat_sum_cons. lia.
+  - cbn [set_nth map]. rewrite !nat_sum_cons. specialize (IH i x y H). lia.
+Qed.
+
+Lemma mu2_set2 : forall kids r c x y, nth_error (nth r kids []) c = Some x ->
+  (mu2 (set2 kids r c y) + muA x = mu2 kids + muA y)%nat.
+Proof.
+  intros kids r c x y H. unfold mu2, set2.
+  assert (Hr : nth_error kids r = Some (nth r kids [])).
+  { destruct (nth_error kids r) as [row|] eqn:E.
+    - f_equal. symmetry. apply nth_nth_error. exact E.
+    - apply nth_error_None in E. rewrite nth_overflow in H by exact E. destruct c; discriminate. }
+  revert r Hr H. induction kids as [|row kids IH]; intros [|r] Hr H; cbn [nth_error] in Hr; try discriminate.
+  - cbn [nth] in *. cbn [set_nth map]. rewrite !nat_sum_cons. pose proof (nat_sum_set_nth muA row c x y H). lia.
+  - cbn [nth] in *. cbn [set_nth map]. rewrite !nat_sum_cons. specialize (IH r Hr H). lia.
+Qed.
+
+Lemma mu2_set2_le : forall kids r c x y, nth_error (nth r kids []) c = Some x -> (muA y <= muA x)%nat ->
+  (mu2 (set2 kids r c y) <= mu2 kids)%nat.
+Proof. intros kids r c x y H L. pose proof (mu2_set2 kids r c x y H). lia. Qed.
+
+Lemma muA_ed : forall sk p q0 e, muA (AED sk p q0 e) =
+  match e_done e with Some _ => O | None => (S (S (length (e_ic e) + length (e_rc e))) - e_d e + mu2 (e_kids e))%nat end.
+Proof. reflexivity. Qed.
+
+Lemma if_elim : forall (b : bool) {A} (P : A -> Prop) (x y : A), P x -> P y -> P (if b then x else y).
+Proof. intros [|] A P x y Hx Hy; assumption. Qed.
+
+Lemma add_border_kids : forall {X} (s : ed X) k, e_kids (add_border s k) = e_kids s.
+Proof.
+  intros X s k. unfold add_border.
+  destruct (Nat.leb 1 k && Nat.leb k (en s)); destruct (Nat.leb 1 k && Nat.leb k (em s)); reflexivity.
+Qed.
+
+Section EDC.
+  Variables (q : bool) (d : nat).
+  Notation CM := (AM q d).
+  Notation C := (opsA q d).
+  Notation T := (TM q d).
+  Variable PC : ast -> Z -> Prop.
+  Hypothesis HPC : forall x v, PC x v -> astep_ok (AM q d) (fun t => PC t v) v x.
+  Variables (K U : Z) (rc ic : list Z) (mcs : list (list Z)).
+  Hypothesis Hd : dims_ok rc ic mcs.
+  Hypothesis Hrc : Forall (fun x => 0 <= x) rc.
+  Hypothesis Hic : Forall (fun x => 0 <= x) ic.
+  Hypothesis Hmc : Forall (Forall (fun x => 0 <= x)) mcs.
+  Hypothesis HK0 : 0 <= K.
+  Hypothesis HK : K <= lbc rc ic (length ic) (length rc).
+  Hypothesis HU : zsum rc + zsum ic <= U.
+  Let n := length rc.
+  Let m := length ic.
+  Notation Mx := (matrix rc ic mcs).
+  Let F := cc rc ic mcs m n.
+
+  Notation Base := (base T K U rc ic mcs).
+  Notation PI := (PInv T K U rc ic mcs).
+  Notation AI := (AInv T K U rc ic mcs).
+
+  Ltac nlia := cbn [TM St AM ASt] in *; unfold m, n in *; lia.
+
+  Definition KI (kids : list (list ast)) : Prop :=
+    forall r c x, (r < m)%nat -> (c < n)%nat -> nth_error (nth r kids []) c = Some x -> PC x (mcv mcs r c).
+
+  Definition mu_e (s : ed ast) : nat :=
+    match e_done s with Some _ => O | None => (S (S (m + n)) - e_d s + mu2 (e_kids s))%nat end.
+
+  Lemma kid_get : forall (s : ed ast) r c, Base s -> KI (e_kids s) -> (r < m)%nat -> (c < n)%nat ->
+    exists x, kid_at s r c = Some x /\ PC x (mcv mcs r c).
+  Proof.
+    intros s r c B Hk Hr Hc. destruct (kid_lookup T K U rc ic mcs s r c B Hr Hc) as (x & Ex & _).
+    exists x. split; [exact Ex|]. apply (Hk r c x Hr Hc). exact Ex.
+  Qed.
+
+  (* replacing a child by a state of the same contract *)
+  Lemma upd_kid : forall (s : ed ast) k P r c x x', PI s k P -> KI (e_kids s) -> (r < m)%nat -> (c < n)%nat ->
+    kid_at s r c = Some x -> PC x' (mcv mcs r c) ->
+    PI (set_kid s r c x') k P /\ KI (e_kids (set_kid s r c x')) /\
+    (mu2 (e_kids (set_kid s r c x')) + muA x = mu2 (e_kids s) + muA x')%nat.
+  Proof.
+    intros s k P r c x x' (B & Dn & Lp & Hc) Hk Hr Hcn Ex Hx'.
+    pose proof B as (EK & EU & Erc & Eic & Eerr & Kin & [Cl Cr]). pose proof Kin as (Kl & Kr & Kc).
+    cbn [TM St AM ASt] in *.
+    split; [|split].
+    - split; [|split; [exact Dn|split; [apply lastpos_tm|exact Hc]]].
+      unfold base. rsimp. repeat split; try assumption.
+      + rewrite set2_length. exact Kl.
+      + intros r' Hr'. rewrite set2_row_length by nlia. apply Kr. exact Hr'.
+      + apply (kids_inv_set T rc ic mcs (e_kids s) r c x' Kin Hr Hcn).
+        apply tm_contract. apply fvA_contract. apply (p_ac CM PC HPC). exact Hx'.
+    - rsimp. intros r' c' y Hr' Hc' Hy.
+      rewrite nth_error_set2 in Hy by (try rewrite (Kr r Hr); nlia).
+      destruct (Nat.eqb_spec r' r) as [->|N1]; cbn [andb] in Hy; [|apply (Hk r' c' y Hr' Hc' Hy)].
+      destruct (Nat.eqb_spec c' c) as [->|N2]; [injection Hy as <-; exact Hx'|apply (Hk r c' y Hr' Hc' Hy)].
+    - rsimp. apply mu2_set2. exact Ex.
+  Qed.
+
+  (* ---- one inner cell of the fringe *)
+  Lemma fproc_cell_spec : forall ft (s : ed ast) k P r c, PI s k P -> KI (e_kids s) -> (r + c = k)%nat ->
+    (1 <= r <= m)%nat -> (1 <= c <= n)%nat -> (k < m + n)%nat ->
+    PI (fproc_cell C ft s r c) k (fun r' c' => P r' c' \/ (r' = r /\ c' = c)) /\ KI (e_kids (fproc_cell C ft s r c)) /\
+    e_d (fproc_cell C ft s r c) = e_d s /\ (mu2 (e_kids (fproc_cell C ft s r c)) <= mu2 (e_kids s))%nat.
+  Proof.
+    intros ft s k P r c HP Hk Ek Hr Hcn Hlt. pose proof HP as (B & Dn & Lp & Hc).
+    destruct (kid_get s (r - 1) (c - 1) B Hk ltac:(lia) ltac:(lia)) as (x & Ex & Ax).
+    cbn [TM St AM ASt] in *. unfold fproc_cell. rewrite Ex. rewrite mu_ops.
+    destruct (kid_run_spec q d PC HPC ft (S (muA x)) x _ Ax ltac:(lia)) as (x1 & E1 & A1 & B1 & M1).
+    rewrite E1. cbv zeta. rewrite B1. cbn [fst snd]. unfold zdefb. cbn [fst snd]. rewrite Z.eqb_refl.
+    assert (Hr2 : (1 <= r <= length ic)%nat) by (unfold m in *; lia).
+    assert (Hc2' : (1 <= c <= length rc)%nat) by (unfold n in *; lia).
+    pose proof (cell_value_correct T K U rc ic mcs Hd s k P r c _ HP Ek Hr2 Hc2' eq_refl) as CV.
+    cbn [TM St] in CV. rewrite CV.
+    destruct (upd_kid s k P (r - 1) (c - 1) x x1 HP Hk ltac:(lia) ltac:(lia) Ex A1) as ((B2 & Dn2 & Lp2 & Hc2) & K2 & Mu2).
+    pose proof B2 as (EK & EU & Erc & Eic & Eerr & Kin & [Cl Cr]). cbn [TM St AM ASt] in *.
+    split; [|split; [exact K2|split; [reflexivity|rsimp; rsimp_in Mu2; lia]]].
+    split; [|split; [exact Dn2|split; [apply lastpos_tm|]]].
+    - unfold base. rsimp. rsimp_in EK. rsimp_in EU. rsimp_in Erc. rsimp_in Eic. rsimp_in Eerr. rsimp_in Kin. rsimp_in Cl. rsimp_in Cr.
+      repeat split; try assumption; try apply Kin.
+      + rewrite set2_length. exact Cl.
+      + intros r' Hr'. rewrite set2_row_length by nlia. apply Cr. exact Hr'.
+    - rsimp. rsimp_in Hc2. rsimp_in Cl. rsimp_in Cr. intros r' c' Hr' Hc' Hcase.
+      rewrite cell_at_set2 by (try rewrite (Cr r); nlia).
+      destruct (Nat.eqb_spec r' r) as [->|N1]; cbn [andb].
+      + destruct (Nat.eqb_spec c' c) as [->|N2]; [reflexivity|]. apply Hc2; try lia; tauto.
+      + apply Hc2; try lia; tauto.
+  Qed.
+
+  Lemma read_kid_spec : forall (s : ed ast) k P r c, PI s k P -> KI (e_kids s) -> (r < m)%nat -> (c < n)%nat ->
+    PI (fst (read_kid C s r c)) k P /\ KI (e_kids (fst (read_kid C s r c))) /\
+    e_d (fst (read_kid C s r c)) = e_d s /\ (mu2 (e_kids (fst (read_kid C s r c))) <= mu2 (e_kids s))%nat.
+  Proof.
+    intros s k P r c HP Hk Hr Hcn. pose proof HP as (B & _).
+    destruct (kid_get s r c B Hk Hr Hcn) as (x & Ex & Ax). cbn [TM St AM ASt] in *.
+    unfold read_kid. rewrite Ex. cbv zeta. cbn [fst].
+    destruct (p_bnd CM PC HPC _ _ Ax) as (B1 & B2 & _). cbn [AM ASt a_bnd a_mu] in B1, B2.
+    destruct (upd_kid s k P r c x _ HP Hk Hr Hcn Ex B1) as (P2 & K2 & Mu2).
+    split; [exact P2|]. split; [exact K2|]. split; [reflexivity|]. cbn [TM St AM ASt a_bnd a_mu] in *. lia.
+  Qed.
+
+  Lemma read_widths_fold : forall l (acc : ed ast * Z) k P, PI (fst acc) k P -> KI (e_kids (fst acc)) ->
+    (forall p, In p l -> (fst p <= m)%nat /\ (snd p <= n)%nat) ->
+    let res := fold_left (fun acc p =>
+                 if Nat.leb 1 (fst p) && Nat.leb 1 (snd p)
+                 then let r1 := read_kid C (fst acc) (fst p - 1) (snd p - 1) in
+                      let r2 := read_kid C (fst r1) (fst p - 1) (snd p - 1) in
+                      (fst r2, snd acc + (snd (snd r1) - fst (snd r2)))
+                 else acc) l acc in
+    PI (fst res) k P /\ KI (e_kids (fst res)) /\ e_d (fst res) = e_d (fst acc) /\
+    (mu2 (e_kids (fst res)) <= mu2 (e_kids (fst acc)))%nat.
+  Proof.
+    induction l as [|[r0 c0] l IH]; intros acc k P HP Hk Hl; cbn zeta.
+    - cbn [fold_left]. split; [exact HP|]. split; [exact Hk|]. split; [reflexivity|apply le_n].
+    - cbn [fold_left fst snd]. destruct (Hl (r0, c0) (or_introl eq_refl)) as (Hr0 & Hc0). cbn [fst snd] in *.
+      assert (Hl' : forall p, In p l -> (fst p <= m)%nat /\ (snd p <= n)%nat) by (intros p Hp; apply Hl; right; exact Hp).
+      destruct (Nat.leb 1 r0 && Nat.leb 1 c0) eqn:E.
+      + apply andb_true_iff in E. destruct E as [E1 E2]. apply Nat.leb_le in E1. apply Nat.leb_le in E2.
+        destruct (read_kid_spec (fst acc) k P (r0 - 1) (c0 - 1) HP Hk ltac:(lia) ltac:(lia)) as (P1 & K1 & D1 & M1).
+        destruct (read_kid_spec _ k P (r0 - 1) (c0 - 1) P1 K1 ltac:(lia) ltac:(lia)) as (P2 & K2 & D2 & M2).
+        cbv zeta.
+        match goal with |- context [fold_left ?f l ?a] => destruct (IH a k P P2 K2 Hl') as (R1 & R2 & R3 & R4) end.
+        cbv zeta in R1, R2, R3, R4. cbn [fst snd] in R3, R4.
+        split; [exact R1|]. split; [exact R2|]. cbn [TM St AM ASt] in *.
+        split; [etransitivity; [exact R3|]; etransitivity; [exact D2|exact D1]|lia].
+      + apply (IH acc k P HP Hk Hl').
+  Qed.
+
+  Lemma fproc_fold : forall ft l (s : ed ast) k P, PI s k P -> KI (e_kids s) -> (k < m + n)%nat ->
+    (forall p, In p l -> (fst p + snd p = k)%nat /\ (fst p <= m)%nat /\ (snd p <= n)%nat) ->
+    let s' := fold_left (fun s p => if Nat.leb 1 (fst p) && Nat.leb 1 (snd p)
+                                    then fproc_cell C ft s (fst p) (snd p) else s) l s in
+    PI s' k (fun r c => P r c \/ (In (r, c) l /\ (1 <= r)%nat /\ (1 <= c)%nat)) /\ KI (e_kids s') /\
+    e_d s' = e_d s /\ (mu2 (e_kids s') <= mu2 (e_kids s))%nat.
+  Proof.
+    intros ft. induction l as [|[r0 c0] l IH]; intros s k P HP Hk Hlt Hl; cbn zeta.
+    - cbn [fold_left]. split; [|split; [exact Hk|split; [reflexivity|apply le_n]]].
+      apply (PInv_weaken T K U rc ic mcs s k P); [exact HP|]. intros r c _ _ _ [H|[[] _]]. exact H.
+    - cbn [fold_left fst snd]. destruct (Hl (r0, c0) (or_introl eq_refl)) as (E0 & Hr0 & Hc0). cbn [fst snd] in *.
+      assert (Hl' : forall p, In p l -> (fst p + snd p = k)%nat /\ (fst p <= m)%nat /\ (snd p <= n)%nat)
+        by (intros p Hp; apply Hl; right; exact Hp).
+      destruct (Nat.leb 1 r0 && Nat.leb 1 c0) eqn:E.
+      + apply andb_true_iff in E. destruct E as [E1 E2]. apply Nat.leb_le in E1. apply Nat.leb_le in E2.
+        destruct (fproc_cell_spec ft s k P r0 c0 HP Hk E0 ltac:(lia) ltac:(lia) Hlt) as (HP1 & K1 & Ed1 & M1).
+        destruct (IH _ k _ HP1 K1 Hlt Hl') as (HP2 & K2 & Ed2 & M2). cbn zeta in HP2, K2, Ed2, M2.
+        cbn [TM St AM ASt] in *.
+        split; [|split; [exact K2|split; [etransitivity; [exact Ed2|exact Ed1]|lia]]].
+        apply (PInv_weaken T K U rc ic mcs _ k _ _ HP2). intros r c _ _ _ [H|[[H|H] [H1 H2]]].
+        * left. left. exact H.
+        * injection H as <- <-. left. right. auto.
+        * right. auto.
+      + destruct (IH _ k _ HP Hk Hlt Hl') as (HP2 & K2 & Ed2 & M2). cbn zeta in HP2, K2, Ed2, M2.
+        split; [|split; [exact K2|split; [exact Ed2|exact M2]]].
+        apply (PInv_weaken T K U rc ic mcs _ k _ _ HP2). intros r c _ _ _ [H|[[H|H] [H1 H2]]].
+        * left. exact H.
+        * injection H as <- <-. apply andb_false_iff in E. destruct E as [E|E]; apply Nat.leb_gt in E; lia.
+        * right. auto.
+  Qed.
+
+  (* one iteration of the loop: diagonal k becomes the fringe and is processed (status reads included) *)
+  Lemma fdiag_step : forall (s : ed ast) k, AI s -> KI (e_kids s) -> e_d s = k -> (k < m + n)%nat ->
+    let s1 := add_border (set_d s (S k)) k in
+    let s2 := if Nat.eqb k 0 then s1 else fproc_diag C q s1 k in
+    AI s2 /\ KI (e_kids s2) /\ e_d s2 = S k /\ (mu2 (e_kids s2) <= mu2 (e_kids s))%nat.
+  Proof.
+    intros s k HA Hk Ek Hlt. cbn zeta.
+    destruct (add_border_spec T K U rc ic mcs Hd s k HA Ek ltac:(unfold m, n in *; lia)) as [HP1 Ed1].
+    assert (K1 : e_kids (add_border (set_d s (S k)) k) = e_kids s) by (rewrite add_border_kids; reflexivity).
+    set (s1 := add_border (set_d s (S k)) k) in *.
+    assert (Adv : forall s2 (Q : nat -> nat -> Prop), PI s2 k Q -> e_d s2 = S k ->
+                  (forall r c, (r <= m)%nat -> (c <= n)%nat -> (r + c = k)%nat -> Q r c) -> AI s2).
+    { intros s2 Q (B & Dn & Lp & Hc) Ed HQ. split; [unfold m, n in *; lia|]. rewrite Ed.
+      split; [exact B|]. split; [exact Dn|]. split; [exact Lp|].
+      intros r c Hr Hcn [L|[E E0]]; [|lia].
+      destruct (Nat.eq_dec (r + c) k) as [Eq|Ne]; apply Hc; auto. left. lia. }
+    destruct (Nat.eqb_spec k 0) as [->|Nk].
+    - split; [apply (Adv s1 _ HP1 Ed1); intros r c _ _ E; left; lia|]. rewrite K1.
+      split; [exact Hk|]. split; [exact Ed1|apply le_n].
+    - unfold fproc_diag. cbv zeta. pose proof HP1 as (B1 & _). destruct (base_em T K U rc ic mcs s1 B1) as [Em En].
+      cbn [TM St] in Em, En. rewrite Em, En. fold m n.
+      assert (Hdiag : forall p, In p (diag m n k) -> (fst p + snd p = k)%nat /\ (fst p <= m)%nat /\ (snd p <= n)%nat).
+      { intros [r c] Hi. apply in_diag in Hi. cbn [fst snd]. lia. }
+      assert (Hk1 : KI (e_kids s1)) by (rewrite K1; exact Hk).
+      (* the status reads *)
+      assert (RW : let rw := if q then (s1, 0) else read_widths C s1 k in
+                   PI (fst rw) k (fun r c => r = O \/ c = O) /\ KI (e_kids (fst rw)) /\ e_d (fst rw) = S k /\
+                   (mu2 (e_kids (fst rw)) <= mu2 (e_kids s))%nat).
+      { cbv zeta. apply (if_elim q (fun rw : ed ast * Z =>
+                   PI (fst rw) k (fun r c => r = O \/ c = O) /\ KI (e_kids (fst rw)) /\ e_d (fst rw) = S k /\
+                   (mu2 (e_kids (fst rw)) <= mu2 (e_kids s))%nat)).
+        - cbn [fst]. split; [exact HP1|]. split; [exact Hk1|]. split; [exact Ed1|]. cbn [TM St] in *. rewrite K1. apply le_n.
+        - unfold read_widths. rewrite Em, En. fold m n.
+          destruct (read_widths_fold (diag m n k) (s1, 0) k _ HP1 Hk1) as (R1 & R2 & R3 & R4).
+          { intros p Hp. destruct (Hdiag p Hp) as (_ & A & B). split; assumption. }
+          cbv zeta in R1, R2, R3, R4. cbn [fst] in R3, R4. cbn [TM St] in *. rewrite K1 in R4.
+          split; [exact R1|]. split; [exact R2|]. split; [etransitivity; [exact R3|exact Ed1]|exact R4]. }
+      cbv zeta in RW. destruct RW as (R1 & R2 & R3 & R4).
+      destruct (fproc_fold (negb (snd (if q then (s1, 0) else read_widths C s1 k) =? 0)) (diag m n k) _ k _ R1 R2 Hlt Hdiag)
+        as (HP2 & K2 & Ed2 & M2).
+      cbv zeta in HP2, K2, Ed2, M2. cbn [TM St] in *.
+      assert (Ed3 : e_d (fold_left (fun s p => if Nat.leb 1 (fst p) && Nat.leb 1 (snd p)
+                                               then fproc_cell C (negb (snd (if q then (s1, 0) else read_widths C s1 k) =? 0)) s (fst p) (snd p)
+                                               else s) (diag m n k) (fst (if q then (s1, 0) else read_widths C s1 k))) = S k)
+        by (etransitivity; [exact Ed2|exact R3]).
+      split; [|split; [exact K2|split; [exact Ed3|lia]]].
+      apply (Adv _ _ HP2); [exact Ed3|].
+      intros r c Hr Hcn E. destruct r as [|r]; [left; left; reflexivity|]. destruct c as [|c]; [left; right; reflexivity|].
+      right. split; [apply in_diag; lia|lia].
+  Qed.
+
+  (* ---- resting states: matrix being built (AI), complete but not finalised (F2), finalised and freed (Dn) *)
+  Definition F2 (s : ed ast) : Prop := e_d s = S (m + n) /\ PI s (m + n) (fun r c => r = O \/ c = O).
+  Definition Dn (s : ed ast) : Prop := Base s /\ e_done s = Some F.
+  Definition FI (s : ed ast) : Prop := KI (e_kids s) /\ (AI s \/ F2 s \/ Dn s).
+
+  Lemma FI_base : forall s : ed ast, FI s -> Base s.
+  Proof. intros s (_ & [(_ & B & _)|[(_ & B & _)|(B & _)]]); exact B. Qed.
+
+  Lemma base_dims : forall s : ed ast, Base s -> em s = m /\ en s = n /\ e_K s = K /\ e_U s = U /\ e_err s = false.
+  Proof.
+    intros s B. destruct (base_em T K U rc ic mcs s B) as [Em En]. destruct B as (EK & EU & _ & _ & Eerr & _).
+    cbn [TM St] in *. auto.
+  Qed.
+
+  Lemma finalize_last_spec : forall s : ed ast, F2 s -> KI (e_kids s) ->
+    Dn (finalize_last C s) /\ KI (e_kids (finalize_last C s)).
+  Proof.
+    intros s (Ed & HP) Hk. pose proof HP as (B & Dnn & Lp & Hc). destruct (base_dims s B) as (Em & En & _).
+    cbn [TM St AM ASt] in *. unfold finalize_last, finner. rewrite Em, En.
+    destruct (Nat.leb 1 m && Nat.leb 1 n) eqn:E.
+    - apply andb_true_iff in E. destruct E as [E1 E2]. apply Nat.leb_le in E1. apply Nat.leb_le in E2.
+      destruct (kid_get s (m - 1) (n - 1) B Hk ltac:(lia) ltac:(lia)) as (x & Ex & Ax). cbn [TM St AM ASt] in *.
+      rewrite Ex. rewrite mu_ops.
+      destruct (kid_run_def_spec q d PC HPC (S (muA x)) x _ Ax ltac:(lia)) as (x2 & E2' & A2 & B2 & M2).
+      rewrite E2'. cbv zeta. rewrite B2. cbn [fst snd]. unfold zdefb. cbn [fst snd]. rewrite Z.eqb_refl.
+      change (cell_value (set_kid s (m - 1) (n - 1) x2) m n (mcv mcs (m - 1) (n - 1)))
+        with (cell_value s m n (mcv mcs (m - 1) (n - 1))).
+      assert (Hr2 : (1 <= m <= length ic)%nat) by (unfold m in *; lia).
+      assert (Hc2 : (1 <= n <= length rc)%nat) by (unfold n in *; lia).
+      pose proof (cell_value_correct T K U rc ic mcs Hd s (m + n) _ m n _ HP eq_refl Hr2 Hc2 eq_refl) as CV.
+      cbn [TM St] in CV. rewrite CV.
+      destruct (upd_kid s (m + n) _ (m - 1) (n - 1) x x2 HP Hk ltac:(lia) ltac:(lia) Ex A2) as ((B3 & _) & K3 & _).
+      pose proof B3 as (EK & EU & Erc & Eic & Eerr & Kin & [Cl Cr]). cbn [TM St AM ASt] in *.
+      split; [|exact K3]. split; [|reflexivity].
+      unfold base. rsimp. rsimp_in EK. rsimp_in EU. rsimp_in Erc. rsimp_in Eic. rsimp_in Eerr. rsimp_in Kin. rsimp_in Cl. rsimp_in Cr.
+      repeat split; try assumption; try apply Kin.
+      + rewrite set2_length. exact Cl.
+      + intros r' Hr'. rewrite set2_row_length by nlia. apply Cr. exact Hr'.
+    - cbn [TM St AM ASt] in *. assert (Hmn : m = O \/ n = O).
+      { apply andb_false_iff in E. destruct E as [E|E]; apply Nat.leb_gt in E; lia. }
+      rewrite (Hc m n ltac:(unfold m; lia) ltac:(unfold n; lia) ltac:(right; split; [reflexivity|exact Hmn])).
+      split; [|exact Hk]. split; [|reflexivity].
+      destruct B as (A1 & A2 & A3 & A4 & A5 & A6 & A7). unfold base. rsimp. repeat split; try assumption; apply A6 || apply A7.
+  Qed.
+
+  Lemma AI_not_complete : forall s : ed ast, AI s -> e_done s = None /\ fcomplete s = false /\ (e_d s <= m + n)%nat.
+  Proof.
+    intros s (Hle & (B & Dnn & _)). destruct (base_dims s B) as (Em & En & _). cbn [TM St AM ASt] in *.
+    split; [exact Dnn|]. split; [|unfold m, n; exact Hle]. unfold fcomplete. rewrite Dnn, Em, En.
+    apply Nat.eqb_neq. unfold m, n. lia.
+  Qed.
+
+  Lemma F2_complete : forall s : ed ast, F2 s -> e_done s = None /\ fcomplete s = true.
+  Proof.
+    intros s (Ed & (B & Dnn & _)). destruct (base_dims s B) as (Em & En & _). cbn [TM St AM ASt] in *.
+    split; [exact Dnn|]. unfold fcomplete. rewrite Dnn, Em, En, Ed. apply Nat.eqb_refl.
+  Qed.
+
+  Lemma empty_vals : n = O -> m = O -> F = 0 /\ K = 0.
+  Proof.
+    intros E1 E2. split.
+    - unfold F, m, n in *. apply (F_00 rc ic mcs E1 E2).
+    - apply (K_zero_when_empty K rc ic mcs HK0 HK); assumption.
+  Qed.
+
+  Lemma F_sound_babs : forall k, (k <= m + n)%nat -> fst (babs K U rc ic mcs k) <= F <= snd (babs K U rc ic mcs k).
+  Proof. intros k H. apply (babs_sound K U rc ic mcs Hd Hrc Hic Hmc HK HU k). unfold m, n in H. exact H. Qed.
+
+  (* bounds() *)
+  Lemma fed_bnd_spec : forall s : ed ast, FI s ->
+    FI (fst (fed_bnd C s)) /\ (mu_e (fst (fed_bnd C s)) <= mu_e s)%nat /\
+    fst (snd (fed_bnd C s)) <= F <= snd (snd (fed_bnd C s)) /\
+    fed_bnd C (fst (fed_bnd C s)) = (fst (fed_bnd C s), snd (fed_bnd C s)) /\
+    (F2 s \/ Dn s -> snd (fed_bnd C s) = (F, F)) /\
+    (AI s -> fed_bnd C s = (s, ed_bnd s)).
+  Proof.
+    intros s HF. pose proof (FI_base s HF) as B. destruct (base_dims s B) as (Em & En & EK & EU & Eerr).
+    cbn [TM St AM ASt] in *. destruct HF as (Hk & HS).
+    unfold fed_bnd, fempty. rewrite Em, En, EK.
+    destruct (Nat.eqb n 0 && Nat.eqb m 0 && (K =? 0)) eqn:E0.
+    - apply andb_true_iff in E0. destruct E0 as [E0 _]. apply andb_true_iff in E0. destruct E0 as [E1 E2].
+      apply Nat.eqb_eq in E1. apply Nat.eqb_eq in E2. destruct (empty_vals E1 E2) as [EF EK0].
+      cbn [fst snd]. split; [split; assumption|]. split; [apply le_n|]. split; [lia|].
+      split; [unfold fed_bnd, fempty; rewrite Em, En, EK, E1, E2, EK0; reflexivity|].
+      split; [intros _; rewrite EF; reflexivity|].
+      intros HA. f_equal. unfold ed_bnd. rewrite Em, En, EK, E1, E2, EK0. reflexivity.
+    - destruct HS as [HA|[H2|HD]].
+      + destruct (AI_not_complete s HA) as (Dnn & Fc & Hle). rewrite Fc. cbn [fst snd].
+        pose proof (ed_bnd_abs T K U rc ic mcs s HA) as Eb. cbn [TM St] in Eb.
+        split; [split; [exact Hk|left; exact HA]|]. split; [apply le_n|].
+        rewrite Eb. split; [apply F_sound_babs; exact Hle|].
+        split; [unfold fed_bnd, fempty; rewrite Em, En, EK, E0, Fc; try rewrite Eb; reflexivity|].
+        split; [intros [(Ed & (_ & _))|(_ & DnS)]; [lia|congruence]|]. intros _. reflexivity.
+      + destruct (F2_complete s H2) as (Dnn & Fc). rewrite Fc, Dnn.
+        destruct (finalize_last_spec s H2 Hk) as ((B' & Dn') & K'). cbv zeta. rewrite Dn'. cbn [fst snd].
+        destruct (base_dims _ B') as (Em' & En' & EK' & _). cbn [TM St AM ASt] in *.
+        split; [split; [exact K'|right; right; split; assumption]|].
+        split; [unfold mu_e; rewrite Dn'; apply Nat.le_0_l|]. split; [lia|].
+        split; [unfold fed_bnd, fempty, fcomplete; rewrite Em', En', EK', E0, Dn'; reflexivity|].
+        split; [intros _; reflexivity|].
+        intros HA. destruct (AI_not_complete s HA) as (_ & Fc' & _). congruence.
+      + destruct HD as (_ & DnS). unfold fcomplete. rewrite DnS. cbn [fst snd].
+        split; [split; [exact Hk|right; right; split; assumption]|]. split; [apply le_n|]. split; [lia|].
+        split; [unfold fed_bnd, fempty, fcomplete; rewrite Em, En, EK, E0, DnS; reflexivity|].
+        split; [intros _; reflexivity|].
+        intros HA. destruct (AI_not_complete s HA) as (Dnn & _). congruence.
+  Qed.
+
+  Lemma mu_e_None : forall s : ed ast, e_done s = None -> mu_e s = (S (S (m + n)) - e_d s + mu2 (e_kids s))%nat.
+  Proof. intros s E. unfold mu_e. rewrite E. reflexivity. Qed.
+  Lemma mu_e_Dn : forall s : ed ast, Dn s -> mu_e s = O.
+  Proof. intros s (_ & E). unfold mu_e. rewrite E. reflexivity. Qed.
+
+  (* tighten_bounds() on a complete matrix that is still there *)
+  Lemma tig_complete_spec : forall s : ed ast, F2 s -> KI (e_kids s) ->
+    FI (fst (tig_complete C s)) /\ (F2 (fst (tig_complete C s)) \/ Dn (fst (tig_complete C s))) /\
+    (snd (tig_complete C s) = true -> (mu_e (fst (tig_complete C s)) < mu_e s)%nat) /\
+    (snd (tig_complete C s) = false -> Dn (fst (tig_complete C s))).
+  Proof.
+    intros s H2 Hk. pose proof H2 as (Ed & HP). pose proof HP as (B & Dnn & Lp & Hc).
+    destruct (base_dims s B) as (Em & En & _). cbn [TM St AM ASt] in *.
+    unfold tig_complete, finner. rewrite Em, En.
+    destruct (Nat.leb 1 m && Nat.leb 1 n) eqn:E.
+    - apply andb_true_iff in E. destruct E as [E1 E2]. apply Nat.leb_le in E1. apply Nat.leb_le in E2.
+      destruct (kid_get s (m - 1) (n - 1) B Hk ltac:(lia) ltac:(lia)) as (x & Ex & Ax). cbn [TM St AM ASt] in *.
+      rewrite Ex. cbv zeta.
+      destruct (p_bnd CM PC HPC _ _ Ax) as (B1 & B2 & B3 & B4). cbn [AM ASt a_bnd a_mu] in B1, B2, B3, B4.
+      destruct (zdefb (snd (k_bnd C x))) eqn:D.
+      + destruct (upd_kid s (m + n) _ (m - 1) (n - 1) x _ HP Hk ltac:(lia) ltac:(lia) Ex B1) as (P1 & K1 & _).
+        destruct (finalize_last_spec (set_kid s (m - 1) (n - 1) (fst (k_bnd C x))) (conj Ed P1) K1) as (D1 & K2). cbn [fst snd].
+        split; [split; [exact K2|right; right; exact D1]|]. split; [right; exact D1|]. split; [discriminate|intros _; exact D1].
+      + destruct (p_tig CM PC HPC _ _ B1) as (T1 & T2 & T3). cbn [AM ASt a_tig a_bnd a_mu] in T1, T2, T3.
+        destruct (upd_kid s (m + n) _ (m - 1) (n - 1) x _ HP Hk ltac:(lia) ltac:(lia) Ex T1) as (P1 & K1 & Mu1).
+        cbn [fst snd].
+        split; [split; [exact K1|right; left; split; [exact Ed|exact P1]]|]. split; [left; split; [exact Ed|exact P1]|].
+        destruct (snd (k_tig C (fst (k_bnd C x)))) eqn:Et.
+        * split; [|discriminate]. intros _. specialize (T2 eq_refl).
+          destruct P1 as (_ & Dn1 & _). rewrite (mu_e_None _ Dn1), (mu_e_None _ Dnn). rsimp. rsimp_in Mu1. lia.
+        * exfalso. destruct (T3 eq_refl) as (_ & _ & S1). rewrite B4 in S1. cbn [snd] in S1. rewrite S1 in D.
+          unfold zdefb in D. cbn [fst snd] in D. rewrite Z.eqb_refl in D. discriminate.
+    - destruct (finalize_last_spec s H2 Hk) as (D1 & K2). cbn [fst snd].
+      split; [split; [exact K2|right; right; exact D1]|]. split; [right; exact D1|]. split; [discriminate|intros _; exact D1].
+  Qed.
+
+  (* the call that adds the lower right cell *)
+  Lemma fed_finalize_spec : forall (s : ed ast) initial, AI s -> KI (e_kids s) -> e_d s = (m + n)%nat -> (1 <= m + n)%nat ->
+    fst initial <= F <= snd initial ->
+    FI (fst (fed_finalize C initial s)) /\ (F2 (fst (fed_finalize C initial s)) \/ Dn (fst (fed_finalize C initial s))) /\
+    (snd (fed_finalize C initial s) = true -> (mu_e (fst (fed_finalize C initial s)) < mu_e s)%nat) /\
+    (snd (fed_finalize C initial s) = false -> Dn (fst (fed_finalize C initial s)) /\ initial = (F, F)).
+  Proof.
+    intros s initial HA Hk Ed H1 Hs. destruct (AI_not_complete s HA) as (Dnn & _ & _).
+    pose proof HA as (_ & (B0 & _)). destruct (base_dims s B0) as (Em & En & _). cbn [TM St AM ASt] in *.
+    unfold fed_finalize. cbv zeta. rewrite Em, En.
+    destruct (add_border_spec T K U rc ic mcs Hd s (m + n) HA Ed ltac:(unfold m, n; lia)) as [HP1 Ed1].
+    assert (K1 : e_kids (add_border (set_d s (S (m + n))) (m + n)) = e_kids s) by (rewrite add_border_kids; reflexivity).
+    cbn [TM St AM ASt] in *. set (s1 := add_border (set_d s (S (m + n))) (m + n)) in *.
+    assert (H2 : F2 s1) by (split; assumption).
+    assert (Hk1 : KI (e_kids s1)) by (rewrite K1; exact Hk).
+    pose proof HP1 as (B1 & Dn1 & _). destruct (base_dims s1 B1) as (Em1 & En1 & _). cbn [TM St AM ASt] in *.
+    assert (Mu_s1 : (mu_e s1 < mu_e s)%nat).
+    { rewrite (mu_e_None s1 Dn1), (mu_e_None s Dnn), Ed1, Ed, K1. lia. }
+    (* the state and flag before the final bounds() *)
+    assert (SR : let sr := if finner s1 then
+                    match kid_at s1 (m - 1) (n - 1) with
+                    | None => (set_err s1, false)
+                    | Some x => let p := k_bnd C x in
+                                let s1' := set_kid s1 (m - 1) (n - 1) (fst p) in
+                                if zdefb (snd p) then (s1', false) else tig_complete C s1'
+                    end else (s1, false) in
+                 KI (e_kids (fst sr)) /\ (F2 (fst sr) \/ Dn (fst sr)) /\ (mu_e (fst sr) <= mu_e s1)%nat /\
+                 (snd sr = true -> (mu_e (fst sr) < mu_e s1)%nat)).
+    { cbv zeta. unfold finner. rewrite Em1, En1.
+      destruct (Nat.leb 1 m && Nat.leb 1 n) eqn:E.
+      - apply andb_true_iff in E. destruct E as [E1 E2]. apply Nat.leb_le in E1. apply Nat.leb_le in E2.
+        destruct (kid_get s1 (m - 1) (n - 1) B1 Hk1 ltac:(lia) ltac:(lia)) as (x & Ex & Ax). cbn [TM St AM ASt] in *.
+        rewrite Ex. destruct (p_bnd CM PC HPC _ _ Ax) as (A1 & A2 & _). cbn [AM ASt a_bnd a_mu] in A1, A2.
+        destruct (upd_kid s1 (m + n) _ (m - 1) (n - 1) x _ HP1 Hk1 ltac:(lia) ltac:(lia) Ex A1) as (P2 & K2 & Mu2).
+        assert (H2' : F2 (set_kid s1 (m - 1) (n - 1) (fst (k_bnd C x)))) by (split; [exact Ed1|exact P2]).
+        assert (MuLe : (mu_e (set_kid s1 (m - 1) (n - 1) (fst (k_bnd C x))) <= mu_e s1)%nat).
+        { destruct P2 as (_ & Dn2 & _). rewrite (mu_e_None (set_kid s1 (m - 1) (n - 1) (fst (k_bnd C x))) Dn2), (mu_e_None s1 Dn1).
+          rsimp. rsimp_in Mu2. lia. }
+        destruct (zdefb (snd (k_bnd C x))).
+        + cbn [fst snd]. split; [exact K2|]. split; [left; exact H2'|]. split; [exact MuLe|discriminate].
+        + destruct (tig_complete_spec _ H2' K2) as ((K3 & _) & S3 & T3 & _).
+          split; [exact K3|]. split; [exact S3|]. split.
+          * destruct (snd (tig_complete C (set_kid s1 (m - 1) (n - 1) (fst (k_bnd C x))))) eqn:Et.
+            -- specialize (T3 eq_refl). lia.
+            -- destruct S3 as [S3|S3].
+               ++ destruct (tig_complete_spec _ H2' K2) as (_ & _ & _ & T4). rewrite (mu_e_Dn _ (T4 Et)). apply Nat.le_0_l.
+               ++ rewrite (mu_e_Dn _ S3). apply Nat.le_0_l.
+          * intros Et. specialize (T3 Et). lia.
+      - cbn [fst snd]. split; [exact Hk1|]. split; [left; exact H2|]. split; [apply le_n|discriminate]. }
+    cbv zeta in SR.
+    match type of SR with KI (e_kids (fst ?sr0)) /\ _ => set (sr := sr0) in * end.
+    destruct SR as (Ks & Ss & Ms & Ts).
+    destruct (snd sr) eqn:Er.
+    - cbn [fst snd]. split; [split; [exact Ks|destruct Ss as [S|S]; [right; left; exact S|right; right; exact S]]|].
+      split; [exact Ss|]. split; [intros _; specialize (Ts eq_refl); lia|discriminate].
+    - assert (HF : FI (fst sr)) by (split; [exact Ks|destruct Ss as [S|S]; [right; left; exact S|right; right; exact S]]).
+      destruct (fed_bnd_spec (fst sr) HF) as ((K4 & S4) & M4 & _ & _ & V4 & _). specialize (V4 Ss).
+      cbn [fst snd]. rewrite V4.
+      assert (D4 : Dn (fst (fed_bnd C (fst sr)))).
+      { destruct Ss as [S|S].
+        - destruct (F2_complete _ S) as (Dnn2 & Fc2). destruct (finalize_last_spec _ S Ks) as (D5 & _).
+          unfold fed_bnd. destruct (fempty (fst sr) && (e_K (fst sr) =? 0)) eqn:E0.
+          + exfalso. apply andb_true_iff in E0. destruct E0 as [E0 _]. unfold fempty in E0.
+            destruct S as (_ & (Bs & _)). destruct (base_dims _ Bs) as (Ems & Ens & _). cbn [TM St AM ASt] in *.
+            rewrite Ems, Ens in E0. apply andb_true_iff in E0. destruct E0 as [E01 E02].
+            apply Nat.eqb_eq in E01. apply Nat.eqb_eq in E02. lia.
+          + rewrite Fc2, Dnn2. cbn [fst]. exact D5.
+        - destruct S as (Bs & Ds). unfold fed_bnd. destruct (fempty (fst sr) && (e_K (fst sr) =? 0)); [cbn [fst]; split; assumption|].
+          unfold fcomplete. rewrite Ds. cbn [fst]. split; assumption. }
+      split; [split; [exact K4|right; right; exact D4]|]. split; [right; exact D4|]. split.
+      + intros _. rewrite (mu_e_Dn _ D4). lia.
+      + intros Et. split; [exact D4|]. symmetry.
+        apply (contained_not_tighter_eq initial (F, F)); [split; cbn [fst snd]; lia|exact Et].
+  Qed.
+
+  (* the `while True` loop of tighten_bounds() *)
+  Lemma fed_loop_spec : forall fuel (s : ed ast) initial, AI s -> KI (e_kids s) -> (1 <= m + n)%nat ->
+    fst initial <= F <= snd initial -> (m + n - e_d s < fuel)%nat ->
+    FI (fst (fed_loop C q fuel initial s)) /\
+    (snd (fed_loop C q fuel initial s) = true -> (mu_e (fst (fed_loop C q fuel initial s)) < mu_e s)%nat) /\
+    (snd (fed_loop C q fuel initial s) = false -> Dn (fst (fed_loop C q fuel initial s)) /\ initial = (F, F)) /\
+    (AI (fst (fed_loop C q fuel initial s)) -> (e_d s < e_d (fst (fed_loop C q fuel initial s)))%nat).
+  Proof.
+    induction fuel as [|fuel IH]; intros s initial HA Hk H1 Hs Hf; [lia|].
+    destruct (AI_not_complete s HA) as (Dnn & _ & Hle).
+    pose proof HA as (_ & (B0 & _)). destruct (base_dims s B0) as (Em & En & _). cbn [TM St AM ASt] in *.
+    cbn [fed_loop]. cbv zeta. rewrite Em, En.
+    destruct (Nat.leb_spec (m + n) (e_d s)) as [L|L].
+    - assert (Ed : e_d s = (m + n)%nat) by lia.
+      destruct (fed_finalize_spec s initial HA Hk Ed H1 Hs) as (R1 & R2 & R3 & R4).
+      split; [exact R1|]. split; [exact R3|]. split; [exact R4|].
+      intros HA2. exfalso. destruct (AI_not_complete _ HA2) as (Dn2 & _ & Le2).
+      destruct R2 as [(Ed2 & _)|(_ & Dd)]; [lia|congruence].
+    - destruct (fdiag_step s (e_d s) HA Hk eq_refl L) as (HA2 & K2 & Ed2 & M2). cbv zeta in HA2, K2, Ed2, M2.
+      set (s2 := if Nat.eqb (e_d s) 0 then add_border (set_d s (S (e_d s))) (e_d s)
+                 else fproc_diag C q (add_border (set_d s (S (e_d s))) (e_d s)) (e_d s)) in *.
+      destruct (AI_not_complete s2 HA2) as (Dnn2 & _ & _).
+      pose proof HA2 as (_ & (B2 & _)). destruct (base_dims s2 B2) as (_ & _ & _ & _ & Eerr2). cbn [TM St AM ASt] in *.
+      rewrite Eerr2.
+      assert (Mu2 : (mu_e s2 < mu_e s)%nat) by (rewrite (mu_e_None s2 Dnn2), (mu_e_None s Dnn), Ed2; lia).
+      destruct (tighter (ed_bnd s2) initial).
+      + cbn [fst snd]. split; [split; [exact K2|left; exact HA2]|]. split; [intros _; exact Mu2|].
+        split; [discriminate|]. intros _. lia.
+      + destruct (IH s2 initial HA2 K2 H1 Hs ltac:(lia)) as (R1 & R2 & R3 & R4).
+        split; [exact R1|]. split; [intros E; specialize (R2 E); lia|]. split; [exact R3|].
+        intros HA3. specialize (R4 HA3). lia.
+  Qed.
+
+  Lemma not_empty_dims : (Nat.eqb n 0 && Nat.eqb m 0 = false) -> (1 <= m + n)%nat.
+  Proof.
+    intros E. apply andb_false_iff in E. destruct E as [E|E]; apply Nat.eqb_neq in E; lia.
+  Qed.
+
+  (* tighten_bounds() *)
+  Lemma fed_tig_spec : forall s : ed ast, FI s ->
+    FI (fst (fed_tig C q s)) /\
+    (snd (fed_tig C q s) = true -> (mu_e (fst (fed_tig C q s)) < mu_e s)%nat) /\
+    (snd (fed_tig C q s) = false ->
+     (mu_e (fst (fed_tig C q s)) <= mu_e s)%nat /\
+     fed_bnd C (fst (fed_tig C q s)) = (fst (fed_tig C q s), (F, F)) /\ snd (fed_bnd C s) = (F, F) /\
+     (fempty s = false -> Dn (fst (fed_tig C q s)))) /\
+    (AI s -> AI (fst (fed_tig C q s)) -> (e_d s < e_d (fst (fed_tig C q s)))%nat \/ snd (fed_tig C q s) = false).
+  Proof.
+    intros s HF. pose proof (FI_base s HF) as B. destruct (base_dims s B) as (Em & En & EK & EU & Eerr).
+    cbn [TM St AM ASt] in *.
+    destruct (fed_bnd_spec s HF) as (Bf & Bm & Bs & Bi & Bv & Ba).
+    unfold fed_tig, fempty. rewrite Em, En.
+    destruct (Nat.eqb n 0 && Nat.eqb m 0) eqn:E0.
+    - cbn [fst snd]. apply andb_true_iff in E0. destruct E0 as [E1 E2]. apply Nat.eqb_eq in E1. apply Nat.eqb_eq in E2.
+      destruct (empty_vals E1 E2) as [EF EK0].
+      assert (Eb : fed_bnd C s = (s, (F, F))).
+      { unfold fed_bnd, fempty. rewrite Em, En, EK, E1, E2, EK0, EF. reflexivity. }
+      split; [exact HF|]. split; [discriminate|]. split.
+      + intros _. split; [apply le_n|]. split; [exact Eb|]. split; [rewrite Eb; reflexivity|].
+        intros Ef. exfalso. revert Ef. unfold fempty. rewrite ?Em, ?En, ?E1, ?E2. cbn. discriminate.
+      + intros _ _. right. reflexivity.
+    - pose proof (not_empty_dims E0) as H1. destruct HF as (Hk & HS).
+      assert (DnCase : forall s' : ed ast, Dn s' -> KI (e_kids s') -> fed_bnd C s' = (s', (F, F))).
+      { intros s' (B' & D') K'. destruct (base_dims s' B') as (Em' & En' & EK' & _). cbn [TM St AM ASt] in *.
+        unfold fed_bnd, fempty, fcomplete. rewrite Em', En', E0, D'. reflexivity. }
+      destruct HS as [HA|[H2|HD]].
+      + destruct (AI_not_complete s HA) as (Dnn & Fc & Hle). rewrite Dnn, Eerr, Fc.
+        pose proof (ed_bnd_abs T K U rc ic mcs s HA) as Eb. cbn [TM St] in Eb.
+        destruct (fed_loop_spec (S (m + n)) s (ed_bnd s) HA Hk H1
+                    ltac:(rewrite Eb; apply F_sound_babs; exact Hle) ltac:(lia)) as (R1 & R2 & R3 & R4).
+        split; [exact R1|]. split; [exact R2|]. split.
+        * intros E. destruct (R3 E) as (D3 & I3). destruct R1 as (K3 & _).
+          split; [rewrite (mu_e_Dn _ D3); apply Nat.le_0_l|]. split; [apply (DnCase _ D3 K3)|].
+          split; [rewrite (Ba HA); cbn [snd]; exact I3|intros _; exact D3].
+        * intros _ HA3. left. apply R4. exact HA3.
+      + destruct (F2_complete s H2) as (Dnn & Fc). rewrite Dnn, Eerr, Fc.
+        destruct (tig_complete_spec s H2 Hk) as (R1 & _ & R2 & R3).
+        split; [exact R1|]. split; [exact R2|]. split.
+        * intros E. pose proof (R3 E) as D3. destruct R1 as (K3 & _).
+          split; [rewrite (mu_e_Dn _ D3); apply Nat.le_0_l|]. split; [apply (DnCase _ D3 K3)|].
+          split; [apply Bv; left; exact H2|intros _; exact D3].
+        * intros HA. destruct (AI_not_complete s HA) as (_ & Fc' & _). congruence.
+      + pose proof HD as (_ & DnS). rewrite DnS. cbn [fst snd].
+        split; [split; [exact Hk|right; right; exact HD]|]. split; [discriminate|]. split.
+        * intros _. split; [apply le_n|]. split; [apply (DnCase s HD Hk)|]. split; [apply Bv; right; exact HD|intros _; exact HD].
+        * intros HA. destruct (AI_not_complete s HA) as (Dnn & _). congruence.
+  Qed.
+
+  Lemma fempty_base : forall s : ed ast, Base s -> fempty s = Nat.eqb n 0 && Nat.eqb m 0.
+  Proof. intros s B. destruct (base_dims s B) as (Em & En & _). cbn [TM St AM ASt] in *. unfold fempty. rewrite Em, En. reflexivity. Qed.
+
+  (* while not self.is_complete() and self.tighten_bounds(): pass *)
+  Lemma drive_spec : forall fuel (s : ed ast), FI s -> fempty s = false -> (AI s -> (m + n - e_d s < fuel)%nat) ->
+    KI (e_kids (drive_complete C q fuel s)) /\ (F2 (drive_complete C q fuel s) \/ Dn (drive_complete C q fuel s)) /\
+    (mu_e (drive_complete C q fuel s) <= mu_e s)%nat.
+  Proof.
+    induction fuel as [|fuel IH]; intros s HF He Hfu.
+    - cbn [drive_complete]. destruct HF as (Hk & [HA|[H2|HD]]).
+      + specialize (Hfu HA). lia.
+      + destruct (F2_complete s H2) as (_ & Fc). rewrite Fc. split; [exact Hk|]. split; [left; exact H2|apply le_n].
+      + pose proof HD as (_ & DnS). unfold fcomplete. rewrite DnS. split; [exact Hk|]. split; [right; exact HD|apply le_n].
+    - cbn [drive_complete]. cbv zeta. pose proof HF as (Hk & [HA|[H2|HD]]).
+      + destruct (AI_not_complete s HA) as (_ & Fc & _). rewrite Fc.
+        destruct (fed_tig_spec s HF) as (R1 & R2 & R3 & R4).
+        destruct (snd (fed_tig C q s)) eqn:Et.
+        * specialize (R2 eq_refl).
+          assert (He1 : fempty (fst (fed_tig C q s)) = false).
+          { rewrite (fempty_base _ (FI_base _ R1)). rewrite <- (fempty_base s (FI_base s HF)). exact He. }
+          destruct (IH _ R1 He1) as (I1 & I2 & I3).
+          { intros HA1. destruct (R4 HA HA1) as [L|L]; [|discriminate]. specialize (Hfu HA).
+            destruct (AI_not_complete _ HA1) as (_ & _ & Le1). lia. }
+          split; [exact I1|]. split; [exact I2|lia].
+        * destruct (R3 eq_refl) as (M3 & _ & _ & D3). specialize (D3 He). destruct R1 as (K1 & _).
+          split; [exact K1|]. split; [right; exact D3|exact M3].
+      + destruct (F2_complete s H2) as (_ & Fc). rewrite Fc. split; [exact Hk|]. split; [left; exact H2|apply le_n].
+      + pose proof HD as (_ & DnS). unfold fcomplete. rewrite DnS. split; [exact Hk|]. split; [right; exact HD|apply le_n].
+  Qed.
+
+  (* edits() *)
+  Lemma fed_edits_spec : forall s : ed ast, FI s ->
+    FI (fed_edits C q s) /\ (mu_e (fed_edits C q s) <= mu_e s)%nat.
+  Proof.
+    intros s HF. pose proof (FI_base s HF) as B. destruct (base_dims s B) as (Em & En & EK & EU & Eerr).
+    cbn [TM St AM ASt] in *. unfold fed_edits. rewrite Em, En.
+    destruct (e_done s) eqn:Ds; [split; [exact HF|apply le_n]|].
+    destruct (fempty s) eqn:He.
+    - rewrite (fempty_base s B) in He. apply andb_true_iff in He. destruct He as [E1 E2].
+      apply Nat.eqb_eq in E1. apply Nat.eqb_eq in E2. destruct (empty_vals E1 E2) as [EF _].
+      destruct HF as (Hk & _).
+      assert (D : Dn (set_done s 0)).
+      { split; [|rsimp; rewrite EF; reflexivity].
+        destruct B as (A1 & A2 & A3 & A4 & A5 & A6 & A7). unfold base. rsimp. repeat split; try assumption; apply A6 || apply A7. }
+      split; [split; [exact Hk|right; right; exact D]|]. rewrite (mu_e_Dn _ D). apply Nat.le_0_l.
+    - destruct (drive_spec (S (S (m + n))) s HF He ltac:(intros; lia)) as (K1 & S1 & M1).
+      set (s1 := drive_complete C q (S (S (m + n))) s) in *.
+      assert (B1 : Base s1) by (destruct S1 as [(_ & (B1 & _))|(B1 & _)]; exact B1).
+      destruct (base_dims s1 B1) as (_ & _ & _ & _ & Eerr1). cbn [TM St AM ASt] in *. rewrite Eerr1.
+      destruct S1 as [S1|S1].
+      + destruct (F2_complete s1 S1) as (Dn1 & Fc1). rewrite Fc1, Dn1.
+        destruct (finalize_last_spec s1 S1 K1) as (D2 & K2).
+        split; [split; [exact K2|right; right; exact D2]|]. rewrite (mu_e_Dn _ D2). apply Nat.le_0_l.
+      + pose proof S1 as (_ & Dn1). unfold fcomplete. rewrite Dn1.
+        split; [split; [exact K1|right; right; exact S1]|exact M1].
+  Qed.
+
+  Lemma kids_no_err : forall s : ed ast, Base s -> KI (e_kids s) ->
+    existsb (fun row => existsb errA row) (e_kids s) = false.
+  Proof.
+    intros s B Hk. destruct (existsb (fun row => existsb errA row) (e_kids s)) eqn:E; [|reflexivity]. exfalso.
+    apply existsb_exists in E. destruct E as (row & Hrow & E2). apply existsb_exists in E2. destruct E2 as (x & Hx & Ex).
+    destruct B as (_ & _ & _ & _ & _ & (Kl & Kr & _) & _). cbn [TM St AM ASt] in *.
+    apply In_nth_error in Hrow. destruct Hrow as (r & Hr). apply In_nth_error in Hx. destruct Hx as (c & Hc).
+    assert (Lr : (r < m)%nat) by (unfold m; rewrite <- Kl; apply nth_error_Some; congruence).
+    assert (Er : nth r (e_kids s) [] = row) by (apply nth_nth_error; exact Hr).
+    assert (Lc : (c < n)%nat) by (unfold n; rewrite <- (Kr r Lr), Er; apply nth_error_Some; congruence).
+    rewrite <- Er in Hc. pose proof (p_err CM PC HPC _ _ (Hk r c x Lr Lc Hc)) as E. cbn [AM a_err] in E. congruence.
+  Qed.
+
+  Lemma muA_mu_e : forall sk p0 q0 (s : ed ast), Base s -> muA (AED sk p0 q0 s) = mu_e s.
+  Proof.
+    intros sk p0 q0 s (_ & _ & Erc & Eic & _). cbn [TM St AM ASt] in *. rewrite muA_ed. unfold mu_e. rewrite Erc, Eic. reflexivity.
+  Qed.
+
+  Lemma bnd_ed : forall sk p0 q0 (e : ed ast),
+    k_bnd (opsA q (S d)) (AED sk p0 q0 e) = (AED sk p0 q0 (fst (fed_bnd C e)), snd (fed_bnd C e)).
+  Proof. reflexivity. Qed.
+  Lemma tig_ed : forall sk p0 q0 (e : ed ast),
+    k_tig (opsA q (S d)) (AED sk p0 q0 e) = (AED sk p0 q0 (fst (fed_tig C q e)), snd (fed_tig C q e)).
+  Proof. reflexivity. Qed.
+  Lemma cmp_ed_none : forall p0 q0 (e : ed ast),
+    k_cmp (opsA q (S d)) (AED None p0 q0 e) = (AED None p0 q0 e, fcomplete e).
+  Proof. reflexivity. Qed.
+  Lemma cmp_ed_some : forall st p0 q0 (e : ed ast),
+    k_cmp (opsA q (S d)) (AED (Some st) p0 q0 e) =
+    (fst (k_bnd (opsA q (S d)) (AED (Some st) p0 q0 e)), zdefb (snd (k_bnd (opsA q (S d)) (AED (Some st) p0 q0 e)))).
+  Proof. reflexivity. Qed.
+  Lemma listing_ed_none : forall p0 q0 (e : ed ast),
+    fst (listing q (S d) (AED None p0 q0 e)) = AED None p0 q0 (fed_edits C q e).
+  Proof. intros. cbn [listing fst]. replace (S d - 1)%nat with d by lia. reflexivity. Qed.
+  Lemma listing_ed_some : forall st p0 q0 (e : ed ast),
+    fst (listing q (S d) (AED (Some st) p0 q0 e)) = AED (Some st) p0 q0 e.
+  Proof. reflexivity. Qed.
+
+  (* EditDistance / StringEdit: every public operation keeps the invariant *)
+  Lemma ed_step : forall sk p0 q0 (e : ed ast), FI e ->
+    astep_ok (AM q (S d)) (fun t => exists e', t = AED sk p0 q0 e' /\ FI e') F (AED sk p0 q0 e).
+  Proof.
+    intros sk p0 q0 e HF. pose proof (FI_base e HF) as B. destruct (base_dims e B) as (_ & _ & _ & _ & Eerr).
+    cbn [TM St AM ASt] in *.
+    unfold astep_ok. cbn [AM ASt a_bnd a_tig a_cmp a_eds a_err a_mu].
+    destruct (fed_bnd_spec e HF) as (Bf & Bm & Bs & Bi & Bv & Ba).
+    assert (Hb : let t' := fst (k_bnd (opsA q (S d)) (AED sk p0 q0 e)) in
+                 let r := snd (k_bnd (opsA q (S d)) (AED sk p0 q0 e)) in
+                 (exists e', t' = AED sk p0 q0 e' /\ FI e') /\ (muA t' <= muA (AED sk p0 q0 e))%nat /\
+                 fst r <= F <= snd r /\ k_bnd (opsA q (S d)) t' = (t', r)).
+    { rewrite bnd_ed. cbv zeta. cbn [fst snd]. rewrite (muA_mu_e _ _ _ _ B), (muA_mu_e _ _ _ _ (FI_base _ Bf)).
+      split; [eexists; split; [reflexivity|exact Bf]|]. split; [exact Bm|]. split; [exact Bs|].
+      rewrite bnd_ed, Bi. reflexivity. }
+    split; [cbn [errA]; rewrite Eerr; destruct HF as (Hk & _); rewrite (kids_no_err e B Hk); reflexivity|].
+    split; [exact Hb|]. split; [|split].
+    - rewrite tig_ed. cbn [fst snd]. destruct (fed_tig_spec e HF) as (R1 & R2 & R3 & _).
+      rewrite (muA_mu_e _ _ _ _ B), (muA_mu_e _ _ _ _ (FI_base _ R1)).
+      split; [eexists; split; [reflexivity|exact R1]|]. split; [exact R2|].
+      intros E. destruct (R3 E) as (M3 & B3 & S3 & _). split; [exact M3|]. split.
+      + rewrite bnd_ed, B3. reflexivity.
+      + rewrite bnd_ed. cbn [snd]. exact S3.
+    - destruct sk as [st|].
+      + rewrite cmp_ed_some. cbn [fst]. cbv zeta in Hb. destruct Hb as (H1 & H2 & _). split; assumption.
+      + rewrite cmp_ed_none. cbn [fst]. split; [eexists; split; [reflexivity|exact HF]|apply le_n].
+    - destruct sk as [st|].
+      + rewrite listing_ed_some. split; [eexists; split; [reflexivity|exact HF]|apply le_n].
+      + rewrite listing_ed_none. destruct (fed_edits_spec e HF) as (E1 & E2).
+        rewrite (muA_mu_e _ _ _ _ B), (muA_mu_e _ _ _ _ (FI_base _ E1)).
+        split; [eexists; split; [reflexivity|exact E1]|exact E2].
+  Qed.
+
+  Theorem ed_contract : forall sk p0 q0 (e : ed ast), FI e -> AContract (AM q (S d)) (AED sk p0 q0 e) F.
+  Proof.
+    intros sk p0 q0 e HF. exists (fun t => exists e', t = AED sk p0 q0 e' /\ FI e').
+    split; [eexists; split; [reflexivity|exact HF]|]. intros t (e' & -> & HF'). apply ed_step. exact HF'.
+  Qed.
+  (* a finalised EditDistance: replacing a listed child by a state of the same contract *)
+  Lemma kid_in_range : forall (s : ed ast) r c x, Base s -> kid_at s r c = Some x -> (r < m)%nat /\ (c < n)%nat.
+  Proof.
+    intros s r c x B Hx. destruct B as (_ & _ & _ & _ & _ & (Kl & Kr & _) & _). cbn [TM St AM ASt] in *. unfold kid_at in Hx.
+    assert (Lr : (r < m)%nat).
+    { destruct (Nat.lt_ge_cases r (length (e_kids s))) as [L|L]; [unfold m; rewrite <- Kl; exact L|].
+      rewrite nth_overflow in Hx by exact L. destruct c; discriminate. }
+    split; [exact Lr|]. unfold n. rewrite <- (Kr r Lr). apply nth_error_Some. congruence.
+  Qed.
+
+  Lemma dn_upd : forall (s : ed ast) r c x x', Dn s -> KI (e_kids s) -> kid_at s r c = Some x -> PC x' (mcv mcs r c) ->
+    Dn (set_kid s r c x') /\ KI (e_kids (set_kid s r c x')).
+  Proof.
+    intros s r c x x' (B & D) Hk Ex Hx'. destruct (kid_in_range s r c x B Ex) as (Hr & Hcn).
+    pose proof B as (EK & EU & Erc & Eic & Eerr & Kin & [Cl Cr]). pose proof Kin as (Kl & Kr & Kc).
+    cbn [TM St AM ASt] in *. split; [split; [|exact D]|].
+    - unfold base. rsimp. repeat split; try assumption.
+      + rewrite set2_length. exact Kl.
+      + intros r' Hr'. rewrite set2_row_length by nlia. apply Kr. exact Hr'.
+      + apply (kids_inv_set T rc ic mcs (e_kids s) r c x' Kin Hr Hcn).
+        apply tm_contract. apply fvA_contract. apply (p_ac CM PC HPC). exact Hx'.
+    - rsimp. intros r' c' y Hr' Hc' Hy.
+      rewrite nth_error_set2 in Hy by (try rewrite (Kr r Hr); nlia).
+      destruct (Nat.eqb_spec r' r) as [->|N1]; cbn [andb] in Hy; [|apply (Hk r' c' y Hr' Hc' Hy)].
+      destruct (Nat.eqb_spec c' c) as [->|N2]; [injection Hy as <-; exact Hx'|apply (Hk r c' y Hr' Hc' Hy)].
+  Qed.
+
+  Lemma FI_done : forall s : ed ast, FI s -> e_done s <> None -> Dn s /\ KI (e_kids s).
+  Proof.
+    intros s (Hk & [HA|[H2|HD]]) Hd0.
+    - destruct (AI_not_complete s HA) as (E & _). congruence.
+    - destruct (F2_complete s H2) as (E & _). congruence.
+    - split; assumption.
+  Qed.
+End EDC.
+
+
+(* ---------------------------------------------------------------- EditDistance.__init__ over sub-edits under contracts *)
+Lemma Forall2_nth_error : forall {A B} (R : A -> B -> Prop) l l' i x, Forall2 R l l' -> nth_error l i = Some x ->
+  exists y, nth_error l' i = Some y /\ R x y.
+Proof.
+  intros A B R l l' i x H. revert i. induction H as [|a b l l' Hab _ IH]; intros [|i] Hx; cbn [nth_error] in *; try discriminate.
+  - injection Hx as <-. exists b. split; [reflexivity|exact Hab].
+  - apply IH. exact Hx.
+Qed.
+
+Lemma Forall2_length' : forall {A B} (R : A -> B -> Prop) l l', Forall2 R l l' -> length l = length l'.
+Proof. induction 1; cbn [length]; congruence. Qed.
+
+Lemma matrix_entry : forall {A} (R : A -> Z -> Prop) (kids : list (list A)) (mcs : list (list Z)) r c x,
+  Forall2 (Forall2 R) kids mcs -> nth_error (nth r kids []) c = Some x -> R x (mcv mcs r c).
+Proof.
+  intros A R kids mcs r c x H Hx.
+  assert (Hr : nth_error kids r = Some (nth r kids [])).
+  { destruct (nth_error kids r) as [row|] eqn:E.
+    - f_equal. symmetry. apply nth_nth_error. exact E.
+    - apply nth_error_None in E. rewrite nth_overflow in Hx by exact E. destruct c; discriminate. }
+  destruct (Forall2_nth_error _ _ _ _ _ H Hr) as (row' & Er' & Hrow).
+  destruct (Forall2_nth_error _ _ _ _ _ Hrow Hx) as (v & Ev & Hv).
+  unfold mcv. rewrite (nth_nth_error mcs r row' [] Er'), (nth_nth_error row' c v 0 Ev). exact Hv.
+Qed.
+
+Definition EDH (K U : Z) (rc ic : list Z) (mcs : list (list Z)) : Prop :=
+  dims_ok rc ic mcs /\ Forall (fun x => 0 <= x) rc /\ Forall (fun x => 0 <= x) ic /\ Forall (Forall (fun x => 0 <= x)) mcs /\
+  0 <= K /\ K <= lbc rc ic (length ic) (length rc) /\ zsum rc + zsum ic <= U.
+
+Lemma matrix_forall2_map : forall {A} (R R' : A -> Z -> Prop) (kids : list (list A)) (mcs : list (list Z)),
+  (forall r c x, nth_error (nth r kids []) c = Some x -> R x (mcv mcs r c) -> R' x (mcv mcs r c)) ->
+  Forall2 (Forall2 R) kids mcs -> forall r c x, nth_error (nth r kids []) c = Some x -> R' x (mcv mcs r c).
+Proof. intros A R R' kids mcs H HF r c x Hx. apply (H r c x Hx). apply (matrix_entry R kids mcs r c x HF Hx). Qed.
+
+(* EditDistance.__init__: the initial state is in the invariant *)
+Lemma ed_init_FI : forall q d (PC : ast -> Z -> Prop) p0 q0 frc fic (kids : list (list ast)) (mcs : list (list Z)),
+  (forall x v, PC x v -> astep_ok (AM q d) (fun t => PC t v) v x) ->
+  let rc := middle p0 q0 frc in
+  let ic := middle p0 q0 fic in
+  (p0 + q0 <= length frc)%nat -> (p0 + q0 <= length fic)%nat ->
+  Forall (fun x => 0 <= x) frc -> Forall (fun x => 0 <= x) fic ->
+  length kids = length ic -> Forall (fun row => length row = length rc) kids ->
+  Forall2 (Forall2 (fun x v => 0 <= v /\ PC x v)) kids mcs ->
+  EDH (ed_constant_cost frc fic) (zsum frc + zsum fic) rc ic mcs /\
+  FI q d PC (ed_constant_cost frc fic) (zsum frc + zsum fic) rc ic mcs (ed_init frc fic p0 q0 kids).
+Proof.
+  intros q d PC p0 q0 frc fic kids mcs HPC rc ic Hp1 Hp2 Hf1 Hf2 Kl Kr Hkids.
+  assert (Hd : dims_ok rc ic mcs).
+  { split; [rewrite <- (Forall2_length' _ _ _ Hkids); exact Kl|].
+    apply Forall_forall. intros row' Hrow'. apply In_nth_error in Hrow'. destruct Hrow' as (r & Er').
+    assert (Lr : (r < length kids)%nat) by (rewrite (Forall2_length' _ _ _ Hkids); apply nth_error_Some; congruence).
+    destruct (nth_error kids r) as [row|] eqn:Er; [|apply nth_error_None in Er; lia].
+    destruct (Forall2_nth_error _ _ _ _ _ Hkids Er) as (row'' & Er'' & Hrow). rewrite Er' in Er''. injection Er'' as <-.
+    rewrite <- (Forall2_length' _ _ _ Hrow). rewrite Forall_forall in Kr. apply Kr. apply (nth_error_In _ _ Er). }
+  assert (Hrc : Forall (fun x => 0 <= x) rc) by (apply Forall_middle; exact Hf1).
+  assert (Hic : Forall (fun x => 0 <= x) ic) by (apply Forall_middle; exact Hf2).
+  assert (Hmc : Forall (Forall (fun x => 0 <= x)) mcs).
+  { apply Forall_forall. intros row' Hrow'. apply In_nth_error in Hrow'. destruct Hrow' as (r & Er').
+    assert (Lr : (r < length kids)%nat) by (rewrite (Forall2_length' _ _ _ Hkids); apply nth_error_Some; congruence).
+    destruct (nth_error kids r) as [row|] eqn:Er; [|apply nth_error_None in Er; lia].
+    destruct (Forall2_nth_error _ _ _ _ _ Hkids Er) as (row'' & Er'' & Hrow). rewrite Er' in Er''. injection Er'' as <-.
+    clear - Hrow. induction Hrow as [|x v l l' (Hv & _) _ IH]; constructor; assumption. }
+  assert (Ln : length rc = (length frc - p0 - q0)%nat) by (apply middle_length; exact Hp1).
+  assert (Lm : length ic = (length fic - p0 - q0)%nat) by (apply middle_length; exact Hp2).
+  assert (HK0 : 0 <= ed_constant_cost frc fic).
+  { unfold ed_constant_cost. destruct (Nat.ltb (length frc) (length fic)); [apply ss_nonneg; exact Hf2|].
+    destruct (Nat.ltb (length fic) (length frc)); [apply ss_nonneg; exact Hf1|lia]. }
+  assert (HK : ed_constant_cost frc fic <= lbc rc ic (length ic) (length rc)).
+  { unfold ed_constant_cost, lbc. rewrite !firstn_all.
+    destruct (Nat.ltb_spec (length frc) (length fic)) as [L1|L1].
+    - destruct (Nat.leb_spec (length ic) (length rc)); [lia|].
+      replace (length fic - length frc)%nat with (length ic - length rc)%nat by lia.
+      apply ss_middle; [exact Hp2|fold ic; lia].
+    - destruct (Nat.ltb_spec (length fic) (length frc)) as [L2|L2].
+      + destruct (Nat.leb_spec (length ic) (length rc)); [|lia].
+        replace (length frc - length fic)%nat with (length rc - length ic)%nat by lia.
+        apply ss_middle; [exact Hp1|fold rc; lia].
+      + destruct (Nat.leb_spec (length ic) (length rc)).
+        * replace (length rc - length ic)%nat with O by lia. unfold sum_smallest. simpl. lia.
+        * lia. }
+  assert (HU : zsum rc + zsum ic <= zsum frc + zsum fic).
+  { pose proof (zsum_middle_le p0 q0 frc Hp1 Hf1) as Z1. pose proof (zsum_middle_le p0 q0 fic Hp2 Hf2) as Z2.
+    fold rc in Z1. fold ic in Z2. lia. }
+  assert (Hkid : forall r c x, nth_error (nth r kids []) c = Some x -> PC x (mcv mcs r c)).
+  { intros r c x Hx. apply (proj2 (matrix_entry _ kids mcs r c x Hkids Hx)). }
+  split; [exact (conj Hd (conj Hrc (conj Hic (conj Hmc (conj HK0 (conj HK HU))))))|]. split.
+  - intros r c x _ _ Hx. cbn [ed_init e_kids] in Hx. apply (Hkid r c x Hx).
+  - left. split; [cbn [ed_init e_d]; lia|]. cbn [ed_init e_d].
+    split; [|split; [reflexivity|split; [apply lastpos_tm|]]].
+    + unfold base. cbn [ed_init e_K e_U e_rc e_ic e_err e_kids e_cost]. fold rc ic.
+      repeat split; try reflexivity; try assumption.
+      * intros r Hr. rewrite Forall_forall in Kr. apply Kr. apply nth_In. cbn [TM St] in *. rewrite Kl. exact Hr.
+      * intros r c x Hr Hc Hx. apply tm_contract. apply fvA_contract. apply (p_ac (AM q d) PC HPC). apply (Hkid r c x Hx).
+      * rewrite repeat_length. reflexivity.
+      * intros r Hr. rewrite nth_repeat' by lia. rewrite repeat_length. reflexivity.
+    + intros r c Hr Hc [L|[E _]]; [lia|]. assert (r = O) by lia. assert (c = O) by lia. subst r c.
+      cbn [ed_init e_cost]. unfold cell_at. rewrite nth_repeat' by lia. rewrite nth_repeat' by lia. reflexivity.
+Qed.
+
+Lemma Forall2_impl2 : forall {A B} (R R' : A -> B -> Prop) l l', (forall x y, In x l -> R x y -> R' x y) ->
+  Forall2 R l l' -> Forall2 R' l l'.
+Proof.
+  intros A B R R' l l' H HF. induction HF as [|x y l l' Hxy _ IH]; constructor.
+  - apply H; [left; reflexivity|exact Hxy].
+  - apply IH. intros x' y' Hi. apply H. right. exact Hi.
+Qed.
+
+Theorem good_ed : forall q sk p0 q0 frc fic (kids : list (list ast)) (mcs : list (list Z)),
+  let rc := middle p0 q0 frc in
+  let ic := middle p0 q0 fic in
+  (p0 + q0 <= length frc)%nat -> (p0 + q0 <= length fic)%nat ->
+  Forall (fun x => 0 <= x) frc -> Forall (fun x => 0 <= x) fic ->
+  length kids = length ic -> Forall (fun row => length row = length rc) kids ->
+  Forall2 (Forall2 (fun x v => 0 <= v /\ Good q x v)) kids mcs ->
+  Good q (AED sk p0 q0 (ed_init frc fic p0 q0 kids)) (final_cost rc ic mcs).
+Proof.
+  intros q sk p0 q0 frc fic kids mcs rc ic Hp1 Hp2 Hf1 Hf2 Kl Kr Hkids d Hh.
+  cbn [aheight] in Hh. destruct d as [|d]; [lia|]. cbn [ed_init e_kids] in Hh.
+  assert (Hk2 : Forall2 (Forall2 (fun x v => 0 <= v /\ AContract (AM q d) x v)) kids mcs).
+  { eapply Forall2_impl2; [|exact Hkids]. intros row vrow Hrow HF. eapply Forall2_impl2; [|exact HF].
+    intros x v Hx (Hv & Hg). cbv beta. split; [exact Hv|]. apply Hg.
+    pose proof (amax_ge _ _ (in_map (fun row => ApiModel.nat_max_list (map aheight row)) kids _ Hrow)) as M1.
+    pose proof (amax_ge _ _ (in_map aheight _ x Hx)) as M2. lia. }
+  destruct (ed_init_FI q d (AContract (AM q d)) p0 q0 frc fic kids mcs (ac_step (AM q d)) Hp1 Hp2 Hf1 Hf2 Kl Kr Hk2)
+    as ((Hd & Hrc & Hic & Hmc & HK0 & HK & HU) & HFI).
+  change (final_cost rc ic mcs) with (cc rc ic mcs (length ic) (length rc)).
+  apply (ed_contract q d (AContract (AM q d)) (ac_step (AM q d)) (ed_constant_cost frc fic) (zsum frc + zsum fic) rc ic mcs
+                     Hd Hrc Hic Hmc HK0 HK HU). exact HFI.
+Qed.
+
+(* ================================================================ Part 6: calls addressed to sub-edits
+   A structural invariant SI (by nesting depth): every sub-edit, at every level, is itself in the invariant of its
+   class.  It is closed under every public call on the edit AND under every call addressed to a listed sub-edit
+   (ApiModel.nav), so histories may mix both. *)
+Fixpoint SI (q : bool) (d : nat) (s : ast) (v : Z) {struct d} : Prop :=
+  match d with
+  | O => match s with AConst c _ => v = c | _ => False end
+  | S d' =>
+      match s with
+      | AConst c _ => v = c
+      | ASum l => exists vs, v = zsum vs /\ Forall2 (SI q d') l vs
+      | AFixed l rems inss err => err = false /\ exists vs, v = zsum vs + zsum rems + zsum inss /\ Forall2 (SI q d') l vs
+      | AED sk p0 q0 e => exists K U rc ic mcs, EDH K U rc ic mcs /\ v = cc rc ic mcs (length ic) (length rc) /\
+                                             FI q d' (SI q d') K U rc ic mcs e
+      end
+  end.
+
+Lemma astep_ok_mono : forall M (Inv Inv' : ASt M -> Prop) v t, (forall x, Inv x -> Inv' x) ->
+  astep_ok M Inv v t -> astep_ok M Inv' v t.
+Proof.
+  intros M Inv Inv' v t H (E & (B1 & B2 & B3 & B4) & (T1 & T2 & T3) & (C1 & C2) & (D1 & D2)).
+  unfold astep_ok. cbv zeta. split; [exact E|]. split; [split; [apply H; exact B1|split; [exact B2|split; [exact B3|exact B4]]]|].
+  split; [split; [apply H; exact T1|split; [exact T2|exact T3]]|]. split; [split; [apply H; exact C1|exact C2]|].
+  split; [apply H; exact D1|exact D2].
+Qed.
+
+Lemma si_const_step : forall q d c t, astep_ok (AM q d) (fun s => SI q d s c) c (AConst c t).
+Proof.
+  intros q d c t. unfold astep_ok. cbn [AM ASt a_bnd a_tig a_cmp a_eds a_err a_mu]. rewrite bnd_const, tig_const, cmp_const.
+  cbn [fst snd errA muA listing].
+  assert (Hs : SI q d (AConst c t) c) by (destruct d; reflexivity).
+  repeat split; intros; try exact Hs; try reflexivity; try lia; try discriminate; apply bnd_const.
+Qed.
+
+(* (A) the invariant is closed under the public operations, which never raise on it *)
+Theorem si_step : forall q d s v, SI q d s v -> astep_ok (AM q d) (fun t => SI q d t v) v s.
+Proof.
+  intros q. induction d as [|d IH]; intros s v H.
+  - destruct s as [c t| | |]; cbn [SI] in H; try contradiction. subst v. apply si_const_step.
+  - destruct s as [c t|l|l rems inss err|sk p0 q0 e]; cbn [SI] in H.
+    + subst v. apply si_const_step.
+    + destruct H as (vs & -> & HF).
+      eapply astep_ok_mono; [|apply (sum_step q d (SI q d) IH vs l HF)].
+      intros t (l' & -> & Hl). cbn [SI]. exists vs. split; [reflexivity|exact Hl].
+    + destruct H as (-> & vs & -> & HF).
+      eapply astep_ok_mono; [|apply (fixed_step q d rems inss vs (SI q d) IH l HF)].
+      intros t (l' & -> & Hl). cbn [SI]. split; [reflexivity|]. exists vs. split; [reflexivity|exact Hl].
+    + destruct H as (K & U & rc & ic & mcs & HE & -> & HFI).
+      pose proof HE as (Hd & Hrc & Hic & Hmc & HK0 & HK & HU).
+      eapply astep_ok_mono; [|apply (ed_step q d (SI q d) IH K U rc ic mcs Hd Hrc Hic Hmc HK0 HK HU sk p0 q0 e HFI)].
+      intros t (e' & -> & Hl). cbn [SI]. exists K, U, rc, ic, mcs. split; [exact HE|]. split; [reflexivity|exact Hl].
+Qed.
+
+Corollary si_contract : forall q d s v, SI q d s v -> AContract (AM q d) s v.
+Proof. intros q d s v H. exists (fun t => SI q d t v). split; [exact H|]. intros t Ht. apply si_step. exact Ht. Qed.
+
+Lemma Forall2_set_nth : forall {A B} (R : A -> B -> Prop) l l' i x y, Forall2 R l l' -> nth_error l' i = Some y -> R x y ->
+  Forall2 R (set_nth i x l) l'.
+Proof.
+  intros A B R l l' i x y H. revert i. induction H as [|a b l l' Hab Ht IH]; intros [|i] Hy Hx; cbn [nth_error set_nth] in *;
+    try discriminate.
+  - injection Hy as <-. constructor; assumption.
+  - constructor; [exact Hab|apply IH; assumption].
+Qed.
+
+Lemma si_const_any : forall q d c t, SI q d (AConst c t) c.
+Proof. intros q [|d] c t; reflexivity. Qed.
+
+(* (B1) a listed sub-edit is in the invariant one level down, and putting back any state of its invariant keeps the parent's *)
+Lemma si_sub : forall q d s v i x, SI q (S d) s v -> sub_get s i = Some x ->
+  exists vx, SI q d x vx /\ forall x', SI q d x' vx -> SI q (S d) (sub_put s i x') v.
+Proof.
+  intros q d s v i x H Hx. destruct s as [c t|l|l rems inss err|sk p0 q0 e]; cbn [SI] in H; cbn [sub_get] in Hx; try discriminate.
+  - destruct H as (vs & -> & HF). destruct (Forall2_nth_error _ _ _ _ _ HF Hx) as (vx & Ev & Hv). exists vx. split; [exact Hv|].
+    intros x' Hx'. cbn [sub_put SI]. exists vs. split; [reflexivity|]. apply (Forall2_set_nth _ _ _ _ _ _ HF Ev Hx').
+  - destruct H as (-> & vs & -> & HF). destruct (Nat.ltb i (length l)) eqn:Li.
+    + destruct (Forall2_nth_error _ _ _ _ _ HF Hx) as (vx & Ev & Hv). exists vx. split; [exact Hv|].
+      intros x' Hx'. cbn [sub_put SI]. rewrite Li. cbn [SI]. split; [reflexivity|]. exists vs. split; [reflexivity|].
+      apply (Forall2_set_nth _ _ _ _ _ _ HF Ev Hx').
+    + assert (Hs : forall x', SI q (S d) (sub_put (AFixed l rems inss false) i x') (zsum vs + zsum rems + zsum inss)).
+      { intros x'. cbn [sub_put]. rewrite Li. cbn [SI]. split; [reflexivity|]. exists vs. split; [reflexivity|exact HF]. }
+      destruct (Nat.ltb i (length l + length rems)); [injection Hx as <-; eexists; split; [apply si_const_any|intros; apply Hs]|].
+      destruct (Nat.ltb i (length l + length rems + length inss)); [|discriminate].
+      injection Hx as <-. eexists. split; [apply si_const_any|intros; apply Hs].
+  - destruct sk as [st|]; [discriminate|]. destruct (e_done e) as [c0|] eqn:Ed; [|discriminate].
+    destruct H as (K & U & rc & ic & mcs & HE & -> & HFI). pose proof HE as (Hd & Hrc & Hic & Hmc & HK0 & HK & HU).
+    destruct (FI_done q d (SI q d) K U rc ic mcs e HFI ltac:(congruence)) as (HD & HKI).
+    assert (Hs : SI q (S d) (AED None p0 q0 e) (cc rc ic mcs (length ic) (length rc))).
+    { cbn [SI]. exists K, U, rc, ic, mcs. split; [exact HE|]. split; [reflexivity|exact HFI]. }
+    destruct (Nat.ltb i p0) eqn:Lp.
+    + injection Hx as <-. eexists. split; [apply si_const_any|]. intros x' _. cbn [sub_put]. rewrite Ed, Lp. exact Hs.
+    + destruct (nth_error (fed_alignment e) (i - p0)) as [[c r|c|r]|] eqn:Ea.
+      * destruct (kid_in_range q d K U rc ic mcs e r c x (proj1 HD) Hx) as (Hr & Hc).
+        exists (mcv mcs r c). split; [apply (HKI r c x Hr Hc Hx)|].
+        intros x' Hx'. cbn [sub_put]. rewrite Ed, Lp, Ea.
+        destruct (dn_upd q d (SI q d) (si_step q d) K U rc ic mcs e r c x x' HD HKI Hx Hx') as (D2 & K2).
+        cbn [SI]. exists K, U, rc, ic, mcs. split; [exact HE|]. split; [reflexivity|]. split; [exact K2|right; right; exact D2].
+      * injection Hx as <-. eexists. split; [apply si_const_any|]. intros x' _. cbn [sub_put]. rewrite Ed, Lp, Ea. exact Hs.
+      * injection Hx as <-. eexists. split; [apply si_const_any|]. intros x' _. cbn [sub_put]. rewrite Ed, Lp, Ea. exact Hs.
+      * destruct (Nat.ltb (i - p0 - length (fed_alignment e)) q0); [|discriminate].
+        injection Hx as <-. eexists. split; [apply si_const_any|]. intros x' _. cbn [sub_put]. rewrite Ed, Lp, Ea. exact Hs.
+Qed.
+
+Lemma si_sub0 : forall q s v i, SI q O s v -> sub_get s i = None.
+Proof. intros q s v i H. destruct s; cbn [SI] in H; try contradiction. reflexivity. Qed.
+
+(* (B2) every call, whatever sub-edit it addresses, keeps the invariant and does not raise *)
+Theorem si_nav : forall path q d o s v, SI q d s v ->
+  SI q d (fst (nav q path d o s)) v /\ is_err (snd (nav q path d o s)) = false.
+Proof.
+  induction path as [|i rest IH]; intros q d o s v H.
+  - cbn [nav]. rewrite apply_op_err, apply_op_fst.
+    pose proof (g_step_inv (AM q d) (fun t => SI q d t v) v (fun t => si_step q d t v) s o H) as (I & _).
+    split; [exact I|]. apply (inv_err (AM q d) (fun t => SI q d t v) v (fun t => si_step q d t v) _ I).
+  - cbn [nav]. destruct d as [|d].
+    + rewrite (si_sub0 q s v i H). cbn [fst snd is_err]. split; [exact H|reflexivity].
+    + destruct (sub_get s i) as [x|] eqn:Ex; [|cbn [fst snd is_err]; split; [exact H|reflexivity]].
+      destruct (si_sub q d s v i x H Ex) as (vx & Hvx & Hput). cbv zeta. cbn [fst snd].
+      replace (S d - 1)%nat with d by lia. destruct (IH q d o x vx Hvx) as (I1 & I2).
+      split; [apply Hput; exact I1|exact I2].
+Qed.
+
+(* (C) every history of calls, on the edit and on its listed sub-edits *)
+Theorem si_history : forall q d v (h : history) s, SI q d s v ->
+  SI q d (fst (run_hist q d h s)) v /\ existsb is_err (snd (run_hist q d h s)) = false /\
+  length (snd (run_hist q d h s)) = length h /\ finish_cost q d (fst (run_hist q d h s)) = Some v.
+Proof.
+  intros q d v. induction h as [|c h IH]; intros s H.
+  - cbn [run_hist fst snd existsb length]. split; [exact H|]. split; [reflexivity|]. split; [reflexivity|].
+    rewrite finish_cost_generic. apply (g_final (AM q d) (fun t => SI q d t v) v (fun t => si_step q d t v) s H).
+  - cbn [run_hist]. cbv zeta. unfold step. destruct (si_nav (fst c) q d (snd c) s v H) as (I1 & I2). rewrite I2.
+    destruct (IH _ I1) as (J1 & J2 & J3 & J4). cbn [fst snd existsb length]. rewrite I2, J2. cbn [orb].
+    split; [exact J1|]. split; [reflexivity|]. split; [f_equal; exact J3|exact J4].
+Qed.
+
+(* ================================================================ Part 4: a.edits(b) for every pair of the modelled fragment *)
+Require Import GT.EdTie GT.ListAux GT.ScriptProofs GT.EqualSpec GT.EqualProofs GT.CostProofs.
+
+Definition GoodV (s : ast) (v : Z) : Prop := 0 <= v /\ forall q d, (aheight s <= d)%nat -> SI q d s v.
+
+Lemma goodv_good : forall s v, GoodV s v -> forall q, Good q s v.
+Proof. intros s v (_ & H) q d Hd. apply si_contract. apply H. exact Hd. Qed.
+
+Lemma goodv_kids : forall q d l vs, Forall2 GoodV l vs -> (ApiModel.nat_max_list (map aheight l) <= d)%nat ->
+  Forall2 (SI q d) l vs.
+Proof.
+  intros q d l vs H Hd.
+  assert (Hh : forall x, In x l -> (aheight x <= d)%nat).
+  { intros x Hx. pose proof (amax_ge (map aheight l) (aheight x) (in_map aheight l x Hx)). lia. }
+  clear Hd. induction H as [|x v l vs (_ & Hx) _ IH]; constructor.
+  - apply Hx. apply Hh. left. reflexivity.
+  - apply IH. intros y Hy. apply Hh. right. exact Hy.
+Qed.
+Definition PgoodA (a : tree) : Prop := forall b s, initA a b = Some s -> exists v, GoodV s v.
+
+Lemma const_tag_of_nonneg : forall a b c t, const_tag_of a b = Some (c, t) -> 0 <= c.
+Proof.
+  intros a b c t H. destruct a as [x|ale alsl cs|ake k v|amk cs|cs]; cbn [const_tag_of] in H; try discriminate.
+  - unfold leaf_script in H. pose proof (replace_cost_pos (Leaf x) b) as Rp.
+    destruct (lk x); destruct b as [y| | | |]; try (injection H as <- <-; lia);
+      try (destruct (lk y); injection H as <- <-; try lia; apply leaf_match_cost_nonneg);
+      try (injection H as <- <-; apply leaf_match_cost_nonneg).
+    destruct (lk y); try (injection H as <- <-; apply leaf_match_cost_nonneg).
+    destruct (str_eqb (ltext x) (ltext y)); [injection H as <- <-; lia|].
+    destruct (Nat.eqb (length (ltext x)) 1 && Nat.eqb (length (ltext y)) 1); [injection H as <- <-; lia|].
+    destruct (str_script (ltext x) (ltext y)). discriminate.
+  - pose proof (replace_cost_pos (Lst ale alsl cs) b).
+    destruct (list_dispatch (Lst ale alsl cs) b); try discriminate; injection H as <- <-; lia.
+  - destruct b as [y| |ake' k' v'| |]; try discriminate.
+    destruct (ake || node_eqb k k'); [discriminate|]. injection H as <- <-.
+    pose proof (replace_cost_pos (Kvp ake k v) (Kvp ake' k' v')). lia.
+Qed.
+
+Lemma goodv_const : forall c t, 0 <= c -> GoodV (AConst c t) c.
+Proof. intros c t H. split; [exact H|]. intros q d _. apply si_const_any. Qed.
+
+(* from "every entry has a value" to a matrix of values *)
+Lemma values_row : forall (row : list ast), Forall (fun x => exists v, GoodV x v) row ->
+  exists vs, Forall2 GoodV row vs.
+Proof. intros row H. apply Forall_exists_Forall2. exact H. Qed.
+
+Lemma values_matrix : forall (kids : list (list ast)), Forall (Forall (fun x => exists v, GoodV x v)) kids ->
+  exists mcs, Forall2 (Forall2 GoodV) kids mcs.
+Proof.
+  intros kids H. apply Forall_exists_Forall2. apply Forall_forall. intros row Hrow.
+  rewrite Forall_forall in H. apply values_row. apply H. exact Hrow.
+Qed.
+
+Lemma goodv_sum : forall l vs, Forall2 GoodV l vs -> GoodV (ASum l) (zsum vs).
+Proof.
+  intros l vs H. split.
+  - apply zsum_nonneg. induction H as [|x v l vs (Hv & _) _ IH]; constructor; assumption.
+  - intros q d Hd. cbn [aheight] in Hd. destruct d as [|d]; [lia|]. cbn [SI]. exists vs. split; [reflexivity|].
+    apply goodv_kids; [exact H|lia].
+Qed.
+
+Lemma goodv_fixed : forall l vs rems inss, Forall2 GoodV l vs -> Forall (fun x => 0 <= x) rems -> Forall (fun x => 0 <= x) inss ->
+  GoodV (AFixed l rems inss false) (zsum vs + zsum rems + zsum inss).
+Proof.
+  intros l vs rems inss H Hr Hi. split.
+  - assert (0 <= zsum vs) by (apply zsum_nonneg; induction H as [|x v l vs (Hv & _) _ IH]; constructor; assumption).
+    pose proof (zsum_nonneg _ Hr). pose proof (zsum_nonneg _ Hi). lia.
+  - intros q d Hd. cbn [aheight] in Hd. destruct d as [|d]; [lia|]. cbn [SI]. split; [reflexivity|]. exists vs.
+    split; [reflexivity|]. apply goodv_kids; [exact H|lia].
+Qed.
+
+Lemma final_cost_nonneg : forall rc ic mcs, dims_ok rc ic mcs -> Forall (fun x => 0 <= x) rc -> Forall (fun x => 0 <= x) ic ->
+  Forall (Forall (fun x => 0 <= x)) mcs -> 0 <= final_cost rc ic mcs.
+Proof.
+  intros rc ic mcs Hd Hrc Hic Hmc. change (final_cost rc ic mcs) with (cc rc ic mcs (length ic) (length rc)).
+  apply (cc_nonneg rc ic mcs Hd Hrc Hic Hmc (length ic + length rc) (length ic) (length rc) eq_refl (le_n _) (le_n _)).
+Qed.
+
+Lemma goodv_ed : forall sk p0 q0 frc fic (kids : list (list ast)) (mcs : list (list Z)),
+  (p0 + q0 <= length frc)%nat -> (p0 + q0 <= length fic)%nat ->
+  Forall (fun x => 0 <= x) frc -> Forall (fun x => 0 <= x) fic ->
+  length kids = length (middle p0 q0 fic) -> Forall (fun row => length row = length (middle p0 q0 frc)) kids ->
+  Forall2 (Forall2 GoodV) kids mcs ->
+  GoodV (AED sk p0 q0 (ed_init frc fic p0 q0 kids)) (final_cost (middle p0 q0 frc) (middle p0 q0 fic) mcs).
+Proof.
+  intros sk p0 q0 frc fic kids mcs Hp1 Hp2 Hf1 Hf2 Kl Kr H. split.
+  - apply final_cost_nonneg; try (apply Forall_middle; assumption).
+    + split; [rewrite <- (Forall2_length' _ _ _ H); exact Kl|].
+      apply Forall_forall. intros row' Hrow'. apply In_nth_error in Hrow'. destruct Hrow' as (r & Er').
+      assert (Lr : (r < length kids)%nat) by (rewrite (Forall2_length' _ _ _ H); apply nth_error_Some; congruence).
+      destruct (nth_error kids r) as [row|] eqn:Er; [|apply nth_error_None in Er; lia].
+      destruct (Forall2_nth_error _ _ _ _ _ H Er) as (row'' & Er'' & Hrow). rewrite Er' in Er''. injection Er'' as <-.
+      rewrite <- (Forall2_length' _ _ _ Hrow). rewrite Forall_forall in Kr. apply Kr. apply (nth_error_In _ _ Er).
+    + apply Forall_forall. intros row' Hrow'. apply In_nth_error in Hrow'. destruct Hrow' as (r & Er').
+      assert (Lr : (r < length kids)%nat) by (rewrite (Forall2_length' _ _ _ H); apply nth_error_Some; congruence).
+      destruct (nth_error kids r) as [row|] eqn:Er; [|apply nth_error_None in Er; lia].
+      destruct (Forall2_nth_error _ _ _ _ _ H Er) as (row'' & Er'' & Hrow). rewrite Er' in Er''. injection Er'' as <-.
+      clear - Hrow. induction Hrow as [|x v l l' (Hv & _) _ IH]; constructor; assumption.
+  - intros q d Hd. cbn [aheight ed_init e_kids] in Hd. destruct d as [|d]; [lia|].
+    assert (Hk2 : Forall2 (Forall2 (fun x v => 0 <= v /\ SI q d x v)) kids mcs).
+    { eapply Forall2_impl2; [|exact H]. intros row vrow Hrow HF. eapply Forall2_impl2; [|exact HF].
+      intros x v Hx (Hv & Hg). cbv beta. split; [exact Hv|]. apply Hg.
+      pose proof (amax_ge _ _ (in_map (fun row => ApiModel.nat_max_list (map aheight row)) kids _ Hrow)) as M1.
+      pose proof (amax_ge _ _ (in_map aheight _ x Hx)) as M2. lia. }
+    destruct (ed_init_FI q d (SI q d) p0 q0 frc fic kids mcs (si_step q d) Hp1 Hp2 Hf1 Hf2 Kl Kr Hk2) as (HE & HFI).
+    cbn [SI]. eexists _, _, _, _, mcs. split; [exact HE|]. split; [reflexivity|exact HFI].
+Qed.
+
+(* StringEdit: an EditDistance over the one-character edits *)
+Theorem goodv_str : forall s t, exists v, GoodV (str_astate s t) v.
+Proof.
+  intros s t. unfold str_astate. destruct (trim Z.eqb s t) as [p q] eqn:E.
+  destruct (trim_bounds Z.eqb s t p q E) as (_ & _ & B1 & B2).
+  assert (N : forall l : str, Forall (fun x => 0 <= x) (map (fun _ : Z => 1) l)).
+  { intros l. apply Forall_forall. intros x Hx. apply in_map_iff in Hx. destruct Hx as (_ & <- & _). lia. }
+  destruct (values_matrix (map (fun d => map (fun c => AConst (char_cost c d) TMatch) (middle p q s)) (middle p q t)))
+    as (mcs & Hm).
+  { apply Forall_forall. intros row Hrow. apply in_map_iff in Hrow. destruct Hrow as (d & <- & _).
+    apply Forall_forall. intros x Hx. apply in_map_iff in Hx. destruct Hx as (c & <- & _).
+    eexists. apply goodv_const. apply char_cost_nonneg. }
+  eexists. apply (goodv_ed _ p q _ _ _ mcs); try (rewrite map_length; assumption); try apply N; try exact Hm.
+  - rewrite middle_map, !map_length. reflexivity.
+  - apply Forall_forall. intros row Hrow. apply in_map_iff in Hrow. destruct Hrow as (d & <- & _).
+    rewrite middle_map, !map_length. reflexivity.
+Qed.
+
+Lemma mget_initA_matrix : forall cs ds i j r,
+  mget (map (fun c => map (fun d => initA c d) ds) cs) i j = Some r ->
+  exists c d, nth_error cs i = Some c /\ nth_error ds j = Some d /\ r = initA c d.
+Proof.
+  intros cs ds i j r H. unfold mget in H. rewrite nth_error_map in H.
+  destruct (nth_error cs i) as [c|] eqn:Ec; [|discriminate]. cbn [option_map] in H.
+  rewrite nth_error_map in H. destruct (nth_error ds j) as [d|] eqn:Ed; [|discriminate].
+  injection H as <-. exists c, d. auto.
+Qed.
+
+Lemma ed_kids_entryA : forall cs ds p nr nc ks r c x,
+  all_some_l (map (fun r => all_some_l (map (fun c => match mget (map (fun c => map (fun d => initA c d) ds) cs) (p + c) (p + r) with
+                                                         | Some (Some s) => Some s | _ => None end) (seq 0 nc))) (seq 0 nr)) = Some ks ->
+  nth_error (nth r ks []) c = Some x ->
+  (r < nr)%nat /\ (c < nc)%nat /\
+  exists c0 d0, nth_error cs (p + c) = Some c0 /\ nth_error ds (p + r) = Some d0 /\ initA c0 d0 = Some x.
+Proof.
+  intros cs ds p nr nc ks r c x Hk Hx.
+  assert (Hr : (r < length ks)%nat).
+  { destruct (Nat.lt_ge_cases r (length ks)) as [L|L]; [exact L|]. rewrite nth_overflow in Hx by exact L. destruct c; discriminate. }
+  destruct (nth_error ks r) as [row|] eqn:Er; [|apply nth_error_None in Er; lia].
+  rewrite (nth_nth_error ks r row [] Er) in Hx.
+  pose proof (all_some_l_nth _ _ _ _ Hk Er) as H1. apply nth_error_map_seq in H1. destruct H1 as [Lr H1].
+  symmetry in H1. pose proof (all_some_l_nth _ _ _ _ H1 Hx) as H2. apply nth_error_map_seq in H2. destruct H2 as [Lc H2].
+  split; [exact Lr|]. split; [exact Lc|].
+  destruct (mget _ (p + c) (p + r)) as [[s'|]|] eqn:Em; try discriminate. injection H2 as ->.
+  destruct (mget_initA_matrix _ _ _ _ _ Em) as (c0 & d0 & E1 & E2 & E3). exists c0, d0. auto.
+Qed.
+
+Lemma goodv_list_ed : forall ale alsl cs b pen s, Forall PgoodA cs ->
+  list_dispatch (Lst ale alsl cs) b = LEditDist pen ->
+  (let ds := match b with Lst _ _ ds => ds | _ => [] end in
+   let M := map (fun c => map (fun d => initA c d) ds) cs in
+   let '(p, q) := trim node_eqb cs ds in
+   let nc := length (middle p q cs) in
+   let nr := length (middle p q ds) in
+   let kids := map (fun r => all_some_l (map (fun c => match mget M (p + c) (p + r) with
+                                                       | Some (Some s) => Some s | _ => None end)
+                                             (seq 0 nc))) (seq 0 nr) in
+   match all_some_l kids with
+   | Some ks => Some (AED None p q (ed_init (map (fun c => remove_cost c pen) cs) (map (fun d => insert_cost d pen) ds) p q ks))
+   | None => None
+   end) = Some s -> exists v, GoodV s v.
+Proof.
+  intros ale alsl cs b pen s IH Ed H.
+  destruct (MachineProofs.dispatch_penalty _ _ _ _ _ Ed) as (ale' & alsl' & ds & -> & Epen). cbn zeta in H.
+  destruct (trim node_eqb cs ds) as [p q] eqn:Et.
+  destruct (trim_bounds node_eqb cs ds p q Et) as (_ & _ & B1 & B2).
+  destruct (all_some_l _) as [ks|] eqn:Ek; [|discriminate]. injection H as <-.
+  assert (Hpen : 0 <= pen) by (rewrite Epen; destruct (all_leaves cs && all_leaves ds); lia).
+  destruct (values_matrix ks) as (mcs & Hm).
+  { apply Forall_forall. intros row Hrow. apply Forall_forall. intros x Hx.
+    destruct (In_nth_error _ _ Hrow) as [r Er]. destruct (In_nth_error _ _ Hx) as [c Ec].
+    rewrite <- (nth_nth_error ks r row [] Er) in Ec.
+    destruct (ed_kids_entryA cs ds p _ _ ks r c x Ek Ec) as (_ & _ & c0 & d0 & E1 & _ & E3).
+    rewrite Forall_forall in IH. apply (IH c0 (nth_error_In _ _ E1) d0 x E3). }
+  eexists. apply (goodv_ed None p q _ _ ks mcs); try (rewrite map_length; assumption);
+    try (apply rcost_nonneg; exact Hpen); try (apply icost_nonneg; exact Hpen); try exact Hm.
+  - rewrite middle_map, map_length. rewrite (all_some_l_length _ _ Ek), map_length, seq_length. reflexivity.
+  - apply Forall_forall. intros row Hrow. rewrite middle_map, map_length.
+    destruct (In_nth_error _ _ Hrow) as [r Er]. pose proof (all_some_l_nth _ _ _ _ Ek Er) as H1.
+    apply nth_error_map_seq in H1. destruct H1 as [_ H1]. symmetry in H1.
+    rewrite (all_some_l_length _ _ H1), map_length, seq_length. reflexivity.
+Qed.
+
+Lemma goodv_list_fixed : forall cs ds s, Forall PgoodA cs ->
+  (let M := map (fun c => map (fun d => initA c d) ds) cs in
+   let n := length cs in
+   let m := length ds in
+   let pairs := map (fun i => match mget M i i with Some (Some s) => Some s | _ => None end) (seq 0 (Nat.min n m)) in
+   let rems := if Nat.ltb m n
+               then map (fun i => remove_cost (nth i cs dummy) 1) (seq (remove_from_pos n m) (n - remove_from_pos n m))
+               else [] in
+   let inss := if Nat.ltb n m
+               then map (fun j => insert_cost (nth j ds dummy) 1) (seq (insert_from_pos n m) (m - insert_from_pos n m))
+               else [] in
+   match all_some_l pairs with
+   | Some l => Some (AFixed l rems inss false)
+   | None => None
+   end) = Some s -> exists v, GoodV s v.
+Proof.
+  intros cs ds s IH H. cbn zeta in H. destruct (all_some_l _) as [l|] eqn:El; [|discriminate]. injection H as <-.
+  destruct (values_row l) as (vs & Hvs).
+  { apply Forall_forall. intros x Hx. destruct (In_nth_error _ _ Hx) as [i Ei].
+    pose proof (all_some_l_nth _ _ _ _ El Ei) as H1. apply nth_error_map_seq in H1. destruct H1 as [_ H1].
+    destruct (mget _ i i) as [[s'|]|] eqn:Em; try discriminate. injection H1 as ->.
+    destruct (mget_initA_matrix _ _ _ _ _ Em) as (c0 & d0 & E1 & _ & E3).
+    rewrite Forall_forall in IH. apply (IH c0 (nth_error_In _ _ E1) d0 _ (eq_sym E3)). }
+  eexists. apply (goodv_fixed l vs _ _ Hvs).
+  - destruct (Nat.ltb (length ds) (length cs)); [|constructor]. apply Forall_forall. intros x Hx.
+    apply in_map_iff in Hx. destruct Hx as (i & <- & _). rewrite remove_cost_eq. pose proof (size_nonneg (nth i cs dummy)). lia.
+  - destruct (Nat.ltb (length cs) (length ds)); [|constructor]. apply Forall_forall. intros x Hx.
+    apply in_map_iff in Hx. destruct Hx as (i & <- & _). rewrite insert_cost_eq. pose proof (size_nonneg (nth i ds dummy)). lia.
+Qed.
+
+(* closing induction: the edit of every pair of trees of the modelled fragment (scalars, strings, nested lists under
+   all list options, key/value pairs) satisfies the C05 contract, under both settings of the status flag *)
+Theorem initA_good : forall a, PgoodA a.
+Proof.
+  apply tree_rect'.
+  - intros x b s H. cbn [initA] in H. destruct (const_tag_of (Leaf x) b) as [[c t]|] eqn:Ec.
+    + injection H as <-. eexists. apply goodv_const. apply (const_tag_of_nonneg _ _ _ _ Ec).
+    + destruct b as [y| | | |]; try discriminate. destruct (lk x); try discriminate; destruct (lk y); try discriminate.
+      injection H as <-. apply goodv_str.
+  - intros ale alsl cs IH b s H. cbn [initA] in H. destruct (const_tag_of (Lst ale alsl cs) b) as [[c t]|] eqn:Ec.
+    + injection H as <-. eexists. apply goodv_const. apply (const_tag_of_nonneg _ _ _ _ Ec).
+    + destruct (list_dispatch (Lst ale alsl cs) b) eqn:Ed; try discriminate.
+      * apply (goodv_list_fixed cs (match b with Lst _ _ ds => ds | _ => [] end) s IH H).
+      * apply (goodv_list_ed ale alsl cs b penalty s IH Ed H).
+  - intros ake k v IHk IHv b s H. cbn [initA] in H. destruct (const_tag_of (Kvp ake k v) b) as [[c t]|] eqn:Ec.
+    + injection H as <-. eexists. apply goodv_const. apply (const_tag_of_nonneg _ _ _ _ Ec).
+    + destruct b as [y| |ake' k' v'| |]; try discriminate.
+      assert (Hk : forall x, (if node_eqb k k' then Some (AConst 0 TMatch) else initA k k') = Some x -> exists w, GoodV x w).
+      { intros x Hx. destruct (node_eqb k k'); [injection Hx as <-; eexists; apply goodv_const; lia|apply (IHk k' x Hx)]. }
+      assert (Hv : forall x, (if node_eqb v v' then Some (AConst 0 TMatch) else initA v v') = Some x -> exists w, GoodV x w).
+      { intros x Hx. destruct (node_eqb v v'); [injection Hx as <-; eexists; apply goodv_const; lia|apply (IHv v' x Hx)]. }
+      destruct (if node_eqb k k' then _ else _) as [x|]; [|discriminate].
+      destruct (if node_eqb v v' then _ else _) as [y|]; [|discriminate]. injection H as <-.
+      destruct (Hk x eq_refl) as (w1 & G1). destruct (Hv y eq_refl) as (w2 & G2).
+      exists (zsum [w1; w2]). apply goodv_sum. constructor; [exact G1|]. constructor; [exact G2|constructor].
+  - intros amk cs IH b s H. cbn [initA const_tag_of] in H. discriminate.
+  - intros cs IH b s H. cbn [initA const_tag_of] in H. discriminate.
+Qed.
+
+(* ================================================================ the property for the modelled fragment
+   For every pair of documents whose edit the model covers, every history of calls on the edit returned by a.edits(b)
+   and both settings of DEFAULT_PRINTER.quiet: no call raises, every call is answered, and completion yields the same
+   final cost v - a value that depends on the pair only. *)
+Theorem C05_model : forall a b s, initA a b = Some s -> exists v, 0 <= v /\
+  forall (quiet : bool) (h : history),
+    existsb is_err (snd (run_hist quiet (aheight s) h s)) = false /\
+    length (snd (run_hist quiet (aheight s) h s)) = length h /\
+    finish_cost quiet (aheight s) (fst (run_hist quiet (aheight s) h s)) = Some v.
+Proof.
+  intros a b s H. destruct (initA_good a b s H) as (v & Hv & Hg). exists v. split; [exact Hv|].
+  intros quiet h. destruct (si_history quiet (aheight s) v h s (Hg quiet (aheight s) (le_n _))) as (_ & A & B & C0).
+  auto.
+Qed.
+
+(* the status flag is irrelevant: both settings end every history with the same final cost *)
+Corollary C05_quiet : forall a b s, initA a b = Some s -> forall (h1 h2 : history),
+  finish_cost true (aheight s) (fst (run_hist true (aheight s) h1 s)) =
+  finish_cost false (aheight s) (fst (run_hist false (aheight s) h2 s)).
+Proof.
+  intros a b s H h1 h2. destruct (C05_model a b s H) as (v & _ & Hv).
+  destruct (Hv true h1) as (_ & _ & ->). destruct (Hv false h2) as (_ & _ & ->). reflexivity.
+Qed.
+
+(* ================================================================ the hypotheses are satisfiable (non-trivial instances) *)
+Definition lf (k : Z) : tree := Leaf (Build_leaf KInt [48 + k] k 0).
+Definition ex_a : tree := Lst true true [Lst true true [lf 1; lf 2]; Lst true true [lf 3; lf 4]].      (* [[1,2],[3,4]] *)
+Definition ex_b : tree := Lst true true [Lst true true [lf 3; lf 5]; Lst true true [lf 1; lf 2]; lf 7]. (* [[3,5],[1,2],7] *)
+Definition ex_s : ast := match initA ex_a ex_b with Some s => s | None => AConst 0 TOther end.
+
+(* the pair is in the modelled fragment: a nested EditDistance (an EditDistance whose cells are EditDistances) *)
+Example ex_modelled : initA ex_a ex_b = Some ex_s /\ aheight ex_s = 2%nat /\ tag_of ex_s = TEditDist.
+Proof. vm_compute. repeat split. Qed.
+
+(* the history that raised TypeError before the repair of D6 (refine twice without reading the bounds), under both
+   settings of the status flag, followed by every other operation: outcomes and final cost *)
+Example ex_history_quiet :
+  snd (run_hist true 2 (map root [OTighten; OTighten; OBounds; OIsComplete; OEdits; OTighten; OHasNonZero; OValid]) ex_s) =
+  [RBool true; RBool true; RRange (Fin 8, Fin 22); RBool false;
+   REdits [TEditDist; TEditDist; TInsert]; RBool false; RBool true; RBool true] /\
+  finish_cost true 2 (fst (run_hist true 2 (map root [OTighten; OTighten; OBounds; OIsComplete; OEdits; OTighten; OHasNonZero; OValid]) ex_s))
+  = Some 10.
+Proof. vm_compute. split; reflexivity. Qed.
+
+Example ex_history_status :
+  existsb is_err (snd (run_hist false 2 (map root [OTighten; OTighten; OBounds; OIsComplete; OEdits; OTighten; OHasNonZero; OValid]) ex_s)) = false /\
+  finish_cost false 2 (fst (run_hist false 2 (map root [OTighten; OTighten; OBounds; OIsComplete; OEdits; OTighten; OHasNonZero; OValid]) ex_s))
+  = Some 10 /\
+  finish_cost false 2 ex_s = Some 10.
+Proof. vm_compute. repeat split. Qed.
+
+(* C05_model applies to it *)
+Example ex_instance : exists v, 0 <= v /\ forall quiet (h : history),
+  existsb is_err (snd (run_hist quiet (aheight ex_s) h ex_s)) = false /\
+  length (snd (run_hist quiet (aheight ex_s) h ex_s)) = length h /\
+  finish_cost quiet (aheight ex_s) (fst (run_hist quiet (aheight ex_s) h ex_s)) = Some v.
+Proof. apply (C05_model ex_a ex_b ex_s). apply ex_modelled. Qed.
+
+(* a sub-edit addressed through a listing (calls on sub-edits are part of the model and of the correspondence run) *)
+Example ex_sub_edit :
+  snd (run_hist true 2 [([], OEdits); ([0%nat], OBounds); ([0%nat], OEdits); ([0%nat; 1%nat], OTighten); ([5%nat], OBounds)] ex_s) =
+  [REdits [TEditDist; TEditDist; TInsert]; RRange (Fin 4, Fin 4); REdits [TInsert; TInsert; TRemove; TRemove]; RBool false; RNoSub].
+Proof. vm_compute. reflexivity. Qed.
+
+(* ================================================================ Part 5: the value is the cost of the big-step script
+   Whenever the big-step model of the final script (ScriptModel.script, the model C01/C03 are about, tied to the code by
+   exact correspondence) yields a script e for the pair, the value of the contract is cost e. *)
+Lemma Forall2_of_nth : forall {A B} (R : A -> B -> Prop) l l', length l = length l' ->
+  (forall i x y, nth_error l i = Some x -> nth_error l' i = Some y -> R x y) -> Forall2 R l l'.
+Proof.
+  intros A B R. induction l as [|a l IH]; intros [|b l'] Hl H; cbn [length] in Hl; try discriminate; constructor.
+  - apply (H O a b); reflexivity.
+  - apply IH; [lia|]. intros i x y Hx Hy. apply (H (S i) x y); assumption.
+Qed.
+
+Lemma script_dispatch : forall ale alsl cs b,
+  list_dispatch_gen (match b with Lst _ _ _ => true | _ => false end)
+    ((fix go (xs ys : list tree) : bool :=
+        match xs, ys with
+        | [], [] => true
+        | x :: xs', y :: ys' => node_eqb x y && go xs' ys'
+        | _, _ => false
+        end) cs (match b with Lst _ _ ds => ds | _ => [] end)) ale alsl
+    (zlen cs) (zlen (match b with Lst _ _ ds => ds | _ => [] end)) (all_leaves cs)
+    (all_leaves (match b with Lst _ _ ds => ds | _ => [] end)) = list_dispatch (Lst ale alsl cs) b.
+Proof. intros ale alsl cs b. destruct b; reflexivity. Qed.
+
+Definition PcostA (a : tree) : Prop :=
+  forall b s O pa pb e, initA a b = Some s -> script O pa pb a b = OK e -> GoodV s (cost e).
+
+Lemma cost_const_tag : forall a b c t O pa pb e, const_tag_of a b = Some (c, t) -> script O pa pb a b = OK e -> cost e = c.
+Proof.
+  intros a b c t O pa pb e H Hs. destruct a as [x|ale alsl cs|ake k v|amk cs|cs]; cbn [const_tag_of] in H; try discriminate.
+  - cbn [script] in Hs. rewrite Hs in H. destruct e; try discriminate; injection H as <- _; reflexivity.
+  - cbn [script] in Hs. rewrite script_dispatch in Hs.
+    destruct (list_dispatch (Lst ale alsl cs) b); try discriminate; injection H as <- _; injection Hs as <-; reflexivity.
+  - destruct b as [y| |ake' k' v'| |]; try discriminate. cbn [script] in Hs.
+    destruct (ake || node_eqb k k'); [discriminate|]. injection H as <- _. injection Hs as <-. reflexivity.
+Qed.
+
+Lemma cost_str : forall u t, exists mcs,
+  fst (str_script u t) = final_cost (middle (fst (trim Z.eqb u t)) (snd (trim Z.eqb u t)) (map (fun _ => 1) u))
+                                    (middle (fst (trim Z.eqb u t)) (snd (trim Z.eqb u t)) (map (fun _ => 1) t)) mcs /\
+  Forall2 (Forall2 GoodV)
+    (map (fun d => map (fun c => AConst (char_cost c d) TMatch) (middle (fst (trim Z.eqb u t)) (snd (trim Z.eqb u t)) u))
+         (middle (fst (trim Z.eqb u t)) (snd (trim Z.eqb u t)) t)) mcs.
+Proof.
+  intros u t. unfold str_script. destruct (trim Z.eqb u t) as [p q]. cbn [fst snd].
+  exists (map (fun d => map (fun c => char_cost c d) (middle p q u)) (middle p q t)). split.
+  - rewrite !middle_map. reflexivity.
+  - assert (Hrow : forall d (lu : list Z), Forall2 GoodV (map (fun c => AConst (char_cost c d) TMatch) lu)
+                                                        (map (fun c => char_cost c d) lu)).
+    { intros d lu. induction lu as [|c lu IH']; constructor; [|exact IH']. apply goodv_const. apply char_cost_nonneg. }
+    induction (middle p q t) as [|d l IH]; constructor; [apply Hrow|exact IH].
+Qed.
+
+Lemma cost_list_fixed : forall O pa pb cs ds s e, Forall PcostA cs ->
+  (let M := map (fun c => map (fun d => initA c d) ds) cs in
+   let n := length cs in
+   let m := length ds in
+   let pairs := map (fun i => match mget M i i with Some (Some s) => Some s | _ => None end) (seq 0 (Nat.min n m)) in
+   let rems := if Nat.ltb m n
+               then map (fun i => remove_cost (nth i cs dummy) 1) (seq (remove_from_pos n m) (n - remove_from_pos n m))
+               else [] in
+   let inss := if Nat.ltb n m
+               then map (fun j => insert_cost (nth j ds dummy) 1) (seq (insert_from_pos n m) (m - insert_from_pos n m))
+               else [] in
+   match all_some_l pairs with
+   | Some l => Some (AFixed l rems inss false)
+   | None => None
+   end) = Some s ->
+  match fixed_len_subs cs ds (sub_matrix O pa pb cs ds) with
+  | Some subs => OK (EComp KFixedLen (zsum (map sub_cost subs)) subs)
+  | None => Err ENoOracle
+  end = OK e -> GoodV s (cost e).
+Proof.
+  intros O pa pb cs ds s e IH H Hs. cbn zeta in H. destruct (all_some_l _) as [l|] eqn:El; [|discriminate]. injection H as <-.
+  unfold fixed_len_subs in Hs. cbv zeta in Hs.
+  destruct (all_some _) as [ps|] eqn:Ep; [|discriminate]. injection Hs as <-. cbn [cost].
+  assert (Hv : Forall2 GoodV l (map sub_cost ps)).
+  { apply Forall2_of_nth.
+    - rewrite map_length, (all_some_l_length _ _ El), (all_some_length _ _ Ep), !map_length. reflexivity.
+    - intros i x y Hx Hy.
+      pose proof (all_some_l_nth _ _ _ _ El Hx) as H1. apply nth_error_map_seq in H1. destruct H1 as [Li H1].
+      destruct (mget _ i i) as [[s'|]|] eqn:Em; try discriminate. injection H1 as Hxs. subst s'.
+      destruct (mget_initA_matrix _ _ _ _ _ Em) as (c0 & d0 & E1 & E2 & E3).
+      rewrite nth_error_map in Hy. destruct (nth_error ps i) as [sb|] eqn:Eps; [|discriminate]. injection Hy as <-.
+      apply all_some_spec in Ep.
+      assert (Hps : nth_error (map (fun i => match mget (sub_matrix O pa pb cs ds) i i with
+                                            | Some (OK e) => Some (SPair i i e) | _ => None end)
+                                   (seq 0 (Nat.min (length cs) (length ds)))) i = Some (Some sb)).
+      { rewrite Ep. rewrite nth_error_map, Eps. reflexivity. }
+      apply nth_error_map_seq in Hps. destruct Hps as [_ Hps].
+      destruct (mget (sub_matrix O pa pb cs ds) i i) as [[e'|]|] eqn:Em2; try discriminate. injection Hps as ->.
+      destruct (mget_sub_matrix _ _ _ _ _ _ _ _ Em2) as (c1 & d1 & F1 & F2 & F3).
+      rewrite E1 in F1. injection F1 as <-. rewrite E2 in F2. injection F2 as <-.
+      rewrite Forall_forall in IH. cbn [sub_cost]. apply (IH c0 (nth_error_In _ _ E1) d0 x O _ _ e' (eq_sym E3) (eq_sym F3)). }
+  rewrite !map_app, !zsum_app.
+  match goal with |- GoodV (AFixed l ?r ?i false) _ => pose proof (goodv_fixed l (map sub_cost ps) r i Hv) as G end.
+  assert (Er : forall (X : list nat), map sub_cost (map (fun i => SRem i (remove_cost (nth i cs dummy) 1)) X) =
+                                      map (fun i => remove_cost (nth i cs dummy) 1) X) by (intros X; rewrite map_map; reflexivity).
+  assert (Ei : forall (X : list nat), map sub_cost (map (fun j => SIns j (insert_cost (nth j ds dummy) 1)) X) =
+                                      map (fun j => insert_cost (nth j ds dummy) 1) X) by (intros X; rewrite map_map; reflexivity).
+  destruct (Nat.ltb (length ds) (length cs)); destruct (Nat.ltb (length cs) (length ds));
+    rewrite ?Er, ?Ei; cbn [map zsum fold_right] in *; rewrite ?Z.add_assoc;
+    (apply G; [try constructor|try constructor]);
+    try (apply Forall_forall; intros z Hz; apply in_map_iff in Hz; destruct Hz as (i & <- & _);
+         rewrite ?remove_cost_eq, ?insert_cost_eq; pose proof (size_nonneg (nth i cs dummy)); pose proof (size_nonneg (nth i ds dummy)); lia).
+Qed.
+
+Lemma cost_list_ed : forall O pa pb ale alsl cs b pen s e, Forall PcostA cs ->
+  list_dispatch (Lst ale alsl cs) b = LEditDist pen ->
+  (let ds := match b with Lst _ _ ds => ds | _ => [] end in
+   let M := map (fun c => map (fun d => initA c d) ds) cs in
+   let '(p, q) := trim node_eqb cs ds in
+   let nc := length (middle p q cs) in
+   let nr := length (middle p q ds) in
+   let kids := map (fun r => all_some_l (map (fun c => match mget M (p + c) (p + r) with
+                                                       | Some (Some s) => Some s | _ => None end)
+                                             (seq 0 nc))) (seq 0 nr) in
+   match all_some_l kids with
+   | Some ks => Some (AED None p q (ed_init (map (fun c => remove_cost c pen) cs) (map (fun d => insert_cost d pen) ds) p q ks))
+   | None => None
+   end) = Some s ->
+  edit_dist_script pen cs (match b with Lst _ _ ds => ds | _ => [] end)
+                   (sub_matrix O pa pb cs (match b with Lst _ _ ds => ds | _ => [] end)) = OK e ->
+  GoodV s (cost e).
+Proof.
+  intros O pa pb ale alsl cs b pen s e IH Ed H Hs.
+  destruct (MachineProofs.dispatch_penalty _ _ _ _ _ Ed) as (ale' & alsl' & ds & -> & Epen). cbn zeta in H.
+  destruct (trim node_eqb cs ds) as [p q] eqn:Et.
+  destruct (trim_bounds node_eqb cs ds p q Et) as (_ & _ & B1 & B2).
+  destruct (all_some_l _) as [ks|] eqn:Ek; [|discriminate]. injection H as <-.
+  assert (Hpen : 0 <= pen) by (rewrite Epen; destruct (all_leaves cs && all_leaves ds); lia).
+  rewrite (edit_dist_script_unfold pen cs ds _ p q Et) in Hs. cbv zeta in Hs.
+  destruct (ed_costs _) as [mcs|] eqn:Ec; [|discriminate]. injection Hs as <-. cbn [cost].
+  pose proof (ed_costs_dims _ _ _ _ mcs (map (fun c => remove_cost c pen) (middle p q cs))
+                            (map (fun d => insert_cost d pen) (middle p q ds)) Ec
+                            ltac:(rewrite map_length; reflexivity) ltac:(rewrite map_length; reflexivity)) as (Dl & Dr).
+  rewrite map_length in Dl.
+  assert (Lks : length ks = length (middle p q ds)) by (rewrite (all_some_l_length _ _ Ek), map_length, seq_length; reflexivity).
+  assert (Hm : Forall2 (Forall2 GoodV) ks mcs).
+  { apply Forall2_of_nth; [lia|]. intros r row vrow Er Ev.
+    pose proof (all_some_l_nth _ _ _ _ Ek Er) as H1. apply nth_error_map_seq in H1. destruct H1 as [Lr H1]. symmetry in H1.
+    assert (Lrow : length row = length (middle p q cs)) by (rewrite (all_some_l_length _ _ H1), map_length, seq_length; reflexivity).
+    assert (Lv : length vrow = length (middle p q cs)).
+    { rewrite Forall_forall in Dr. rewrite (Dr vrow (nth_error_In _ _ Ev)), map_length. reflexivity. }
+    apply Forall2_of_nth; [lia|]. intros c x v Hx Hv.
+    assert (Hx' : nth_error (nth r ks []) c = Some x) by (rewrite (nth_nth_error ks r row [] Er); exact Hx).
+    destruct (ed_kids_entryA cs ds p _ _ ks r c x Ek Hx') as (_ & Lc & c0 & d0 & E1 & E2 & E3).
+    destruct (ed_costs_nth _ p _ _ mcs r c Ec Lr Lc) as (res & Em & Ecost).
+    destruct (mget_sub_matrix _ _ _ _ _ _ _ _ Em) as (c1 & d1 & F1 & F2 & F3).
+    rewrite E1 in F1. injection F1 as <-. rewrite E2 in F2. injection F2 as <-.
+    rewrite (nth_nth_error mcs r vrow [] Ev), (nth_nth_error vrow c v 0 Hv) in Ecost.
+    destruct res as [e'|]; [|discriminate]. cbn [res_cost] in Ecost. injection Ecost as <-.
+    rewrite Forall_forall in IH. apply (IH c0 (nth_error_In _ _ E1) d0 x O _ _ e' E3 (eq_sym F3)). }
+  rewrite <- !middle_map.
+  apply (goodv_ed None p q _ _ ks mcs); try (rewrite map_length; assumption);
+    try (apply rcost_nonneg; exact Hpen); try (apply icost_nonneg; exact Hpen); try exact Hm.
+  - rewrite middle_map, map_length. exact Lks.
+  - apply Forall_forall. intros row Hrow. rewrite middle_map, map_length.
+    destruct (In_nth_error _ _ Hrow) as [r Er]. pose proof (all_some_l_nth _ _ _ _ Ek Er) as H1.
+    apply nth_error_map_seq in H1. destruct H1 as [_ H1]. symmetry in H1.
+    rewrite (all_some_l_length _ _ H1), map_length, seq_length. reflexivity.
+Qed.
+
+Theorem initA_cost : forall a, PcostA a.
+Proof.
+  apply tree_rect'.
+  - intros x b s O pa pb e H Hs. cbn [initA] in H. destruct (const_tag_of (Leaf x) b) as [[c t]|] eqn:Ec.
+    + injection H as <-. rewrite (cost_const_tag _ _ _ _ _ _ _ _ Ec Hs). apply goodv_const. apply (const_tag_of_nonneg _ _ _ _ Ec).
+    + destruct b as [y| | | |]; try discriminate. destruct (lk x) eqn:Kx; try discriminate; destruct (lk y) eqn:Ky; try discriminate.
+      injection H as <-. cbn [script] in Hs. cbn [const_tag_of] in Ec. unfold leaf_script in Hs, Ec. rewrite Kx, Ky in Hs, Ec.
+      destruct (str_eqb (ltext x) (ltext y)); [discriminate|].
+      destruct (Nat.eqb (length (ltext x)) 1 && Nat.eqb (length (ltext y)) 1); [discriminate|].
+      destruct (cost_str (ltext x) (ltext y)) as (mcs & Ecst & Hm).
+      destruct (str_script (ltext x) (ltext y)) as [c ops] eqn:Es. injection Hs as <-. cbn [cost fst] in *. subst c.
+      unfold str_astate. destruct (trim Z.eqb (ltext x) (ltext y)) as [p q] eqn:E. cbn [fst snd] in *.
+      destruct (trim_bounds Z.eqb _ _ p q E) as (_ & _ & B1 & B2).
+      assert (N : forall l : str, Forall (fun x => 0 <= x) (map (fun _ : Z => 1) l)).
+      { intros l. apply Forall_forall. intros z Hz. apply in_map_iff in Hz. destruct Hz as (_ & <- & _). lia. }
+      apply (goodv_ed _ p q _ _ _ mcs); try (rewrite map_length; assumption); try apply N; try exact Hm.
+      * rewrite middle_map, !map_length. reflexivity.
+      * apply Forall_forall. intros row Hrow. apply in_map_iff in Hrow. destruct Hrow as (d & <- & _).
+        rewrite middle_map, !map_length. reflexivity.
+  - intros ale alsl cs IH b s O pa pb e H Hs. cbn [initA] in H. destruct (const_tag_of (Lst ale alsl cs) b) as [[c t]|] eqn:Ec.
+    + injection H as <-. rewrite (cost_const_tag _ _ _ _ _ _ _ _ Ec Hs). apply goodv_const. apply (const_tag_of_nonneg _ _ _ _ Ec).
+    + cbn [script] in Hs. rewrite script_dispatch in Hs.
+      destruct (list_dispatch (Lst ale alsl cs) b) eqn:Ed; try discriminate.
+      * apply (cost_list_fixed O pa pb cs (match b with Lst _ _ ds => ds | _ => [] end) s e IH H Hs).
+      * apply (cost_list_ed O pa pb ale alsl cs b penalty s e IH Ed H Hs).
+  - intros ake k v IHk IHv b s O pa pb e H Hs. cbn [initA] in H. destruct (const_tag_of (Kvp ake k v) b) as [[c t]|] eqn:Ec.
+    + injection H as <-. rewrite (cost_const_tag _ _ _ _ _ _ _ _ Ec Hs). apply goodv_const. apply (const_tag_of_nonneg _ _ _ _ Ec).
+    + destruct b as [y| |ake' k' v'| |]; try discriminate. cbn [script] in Hs. cbn [const_tag_of] in Ec.
+      destruct (ake || node_eqb k k'); [|discriminate].
+      assert (Hk : forall x e1, (if node_eqb k k' then Some (AConst 0 TMatch) else initA k k') = Some x ->
+                                (if node_eqb k k' then OK (EMatch 0) else script O (pa ++ [0%nat]) (pb ++ [0%nat]) k k') = OK e1 ->
+                                GoodV x (cost e1)).
+      { intros x e1 Hx He. destruct (node_eqb k k'); [injection Hx as <-; injection He as <-; cbn [cost]; apply goodv_const; lia|].
+        apply (IHk k' x O _ _ e1 Hx He). }
+      assert (Hv : forall x e2, (if node_eqb v v' then Some (AConst 0 TMatch) else initA v v') = Some x ->
+                                (if node_eqb v v' then OK (EMatch 0) else script O (pa ++ [1%nat]) (pb ++ [1%nat]) v v') = OK e2 ->
+                                GoodV x (cost e2)).
+      { intros x e2 Hx He. destruct (node_eqb v v'); [injection Hx as <-; injection He as <-; cbn [cost]; apply goodv_const; lia|].
+        apply (IHv v' x O _ _ e2 Hx He). }
+      destruct (if node_eqb k k' then Some (AConst 0 TMatch) else initA k k') as [x|] eqn:Ex; [|discriminate].
+      destruct (if node_eqb v v' then Some (AConst 0 TMatch) else initA v v') as [y|] eqn:Ey; [|discriminate]. injection H as <-.
+      destruct (if node_eqb k k' then OK (EMatch 0) else script O (pa ++ [0%nat]) (pb ++ [0%nat]) k k') as [e1|] eqn:E1; [|discriminate].
+      destruct (if node_eqb v v' then OK (EMatch 0) else script O (pa ++ [1%nat]) (pb ++ [1%nat]) v v') as [e2|] eqn:E2; [|discriminate].
+      injection Hs as <-. cbn [cost].
+      replace (cost e1 + cost e2) with (zsum [cost e1; cost e2]) by (cbn; lia).
+      apply goodv_sum. constructor; [apply (Hk x e1 eq_refl eq_refl)|]. constructor; [apply (Hv y e2 eq_refl eq_refl)|constructor].
+  - intros amk cs IH b s O pa pb e H. cbn [initA const_tag_of] in H. discriminate.
+  - intros cs IH b s O pa pb e H. cbn [initA const_tag_of] in H. discriminate.
+Qed.
+
+(* the property with the big-step final cost: every history, both flag settings *)
+Theorem C05_model_cost : forall a b s O pa pb e, initA a b = Some s -> script O pa pb a b = OK e ->
+  forall (quiet : bool) (h : history),
+    existsb is_err (snd (run_hist quiet (aheight s) h s)) = false /\
+    length (snd (run_hist quiet (aheight s) h s)) = length h /\
+    finish_cost quiet (aheight s) (fst (run_hist quiet (aheight s) h s)) = Some (cost e).
+Proof.
+  intros a b s O pa pb e H Hs quiet h. destruct (initA_cost a b s O pa pb e H Hs) as (_ & Hg).
+  destruct (si_history quiet (aheight s) (cost e) h s (Hg quiet (aheight s) (le_n _))) as (_ & A & B & C0). auto.
+Qed.
+
+Example ex_script_cost : exists e, script (Build_oracle [] []) [] [] ex_a ex_b = OK e /\ cost e = 10.
+Proof. eexists. split; [vm_compute; reflexivity|reflexivity]. Qed.
+
